@@ -9,11 +9,15 @@ type nat =
 | O
 | S of nat
 
-(** val option_map : ('a1 -> 'a2) -> 'a1 option -> 'a2 option **)
+(** val fst : ('a1 * 'a2) -> 'a1 **)
 
-let option_map f = function
-| Some a -> Some (f a)
-| None -> None
+let fst = function
+| (x, _) -> x
+
+(** val snd : ('a1 * 'a2) -> 'a2 **)
+
+let snd = function
+| (_, y) -> y
 
 (** val length : 'a1 list -> nat **)
 
@@ -49,15 +53,6 @@ module Coq__1 = struct
 end
 include Coq__1
 
-(** val sub : nat -> nat -> nat **)
-
-let rec sub n0 m =
-  match n0 with
-  | O -> n0
-  | S k -> (match m with
-            | O -> n0
-            | S l -> sub k l)
-
 type positive =
 | XI of positive
 | XO of positive
@@ -71,6 +66,18 @@ type z =
 | Z0
 | Zpos of positive
 | Zneg of positive
+
+module Nat =
+ struct
+  (** val min : nat -> nat -> nat **)
+
+  let rec min n0 m =
+    match n0 with
+    | O -> O
+    | S n' -> (match m with
+               | O -> O
+               | S m' -> S (min n' m'))
+ end
 
 module Pos =
  struct
@@ -266,26 +273,6 @@ module Pos =
              | XO _ -> Npos XH
              | _ -> N0)
 
-  (** val coq_lxor : positive -> positive -> n **)
-
-  let rec coq_lxor p q =
-    match p with
-    | XI p0 ->
-      (match q with
-       | XI q0 -> coq_Ndouble (coq_lxor p0 q0)
-       | XO q0 -> coq_Nsucc_double (coq_lxor p0 q0)
-       | XH -> Npos (XO p0))
-    | XO p0 ->
-      (match q with
-       | XI q0 -> coq_Nsucc_double (coq_lxor p0 q0)
-       | XO q0 -> coq_Ndouble (coq_lxor p0 q0)
-       | XH -> Npos (XI p0))
-    | XH ->
-      (match q with
-       | XI q0 -> Npos (XO q0)
-       | XO q0 -> Npos (XI q0)
-       | XH -> N0)
-
   (** val iter_op : ('a1 -> 'a1 -> 'a1) -> positive -> 'a1 -> 'a1 **)
 
   let rec iter_op op p a =
@@ -323,6 +310,15 @@ module N =
                  | N0 -> n0
                  | Npos q -> Npos (Pos.coq_lor p q))
 
+  (** val coq_land : n -> n -> n **)
+
+  let coq_land n0 m =
+    match n0 with
+    | N0 -> N0
+    | Npos p -> (match m with
+                 | N0 -> N0
+                 | Npos q -> Pos.coq_land p q)
+
   (** val ldiff : n -> n -> n **)
 
   let ldiff n0 m =
@@ -331,15 +327,6 @@ module N =
     | Npos p -> (match m with
                  | N0 -> n0
                  | Npos q -> Pos.ldiff p q)
-
-  (** val coq_lxor : n -> n -> n **)
-
-  let coq_lxor n0 m =
-    match n0 with
-    | N0 -> m
-    | Npos p -> (match m with
-                 | N0 -> n0
-                 | Npos q -> Pos.coq_lxor p q)
  end
 
 module Z =
@@ -504,6 +491,13 @@ module Z =
                  | Zneg q -> Pos.eqb p q
                  | _ -> false)
 
+  (** val min : z -> z -> z **)
+
+  let min n0 m =
+    match compare n0 m with
+    | Gt -> m
+    | _ -> n0
+
   (** val to_nat : z -> nat **)
 
   let to_nat = function
@@ -574,6 +568,17 @@ module Z =
   let modulo a b =
     let (_, r) = div_eucl a b in r
 
+  (** val odd : z -> bool **)
+
+  let odd = function
+  | Z0 -> false
+  | Zpos p -> (match p with
+               | XO _ -> false
+               | _ -> true)
+  | Zneg p -> (match p with
+               | XO _ -> false
+               | _ -> true)
+
   (** val div2 : z -> z **)
 
   let div2 = function
@@ -595,6 +600,23 @@ module Z =
   let shiftr a n0 =
     shiftl a (opp n0)
 
+  (** val coq_lor : z -> z -> z **)
+
+  let coq_lor a b =
+    match a with
+    | Z0 -> b
+    | Zpos a0 ->
+      (match b with
+       | Z0 -> a
+       | Zpos b0 -> Zpos (Pos.coq_lor a0 b0)
+       | Zneg b0 -> Zneg (N.succ_pos (N.ldiff (Pos.pred_N b0) (Npos a0))))
+    | Zneg a0 ->
+      (match b with
+       | Z0 -> a
+       | Zpos b0 -> Zneg (N.succ_pos (N.ldiff (Pos.pred_N a0) (Npos b0)))
+       | Zneg b0 ->
+         Zneg (N.succ_pos (N.coq_land (Pos.pred_N a0) (Pos.pred_N b0))))
+
   (** val coq_land : z -> z -> z **)
 
   let coq_land a b =
@@ -612,27 +634,23 @@ module Z =
        | Zneg b0 ->
          Zneg (N.succ_pos (N.coq_lor (Pos.pred_N a0) (Pos.pred_N b0))))
 
-  (** val coq_lxor : z -> z -> z **)
-
-  let coq_lxor a b =
-    match a with
-    | Z0 -> b
-    | Zpos a0 ->
-      (match b with
-       | Z0 -> a
-       | Zpos b0 -> of_N (Pos.coq_lxor a0 b0)
-       | Zneg b0 -> Zneg (N.succ_pos (N.coq_lxor (Npos a0) (Pos.pred_N b0))))
-    | Zneg a0 ->
-      (match b with
-       | Z0 -> a
-       | Zpos b0 -> Zneg (N.succ_pos (N.coq_lxor (Pos.pred_N a0) (Npos b0)))
-       | Zneg b0 -> of_N (N.coq_lxor (Pos.pred_N a0) (Pos.pred_N b0)))
-
   (** val lnot : z -> z **)
 
   let lnot a =
     pred (opp a)
  end
+
+(** val hd : 'a1 -> 'a1 list -> 'a1 **)
+
+let hd default = function
+| [] -> default
+| x :: _ -> x
+
+(** val tl : 'a1 list -> 'a1 list **)
+
+let tl = function
+| [] -> []
+| _ :: m -> m
 
 (** val nth : nat -> 'a1 list -> 'a1 -> 'a1 **)
 
@@ -644,25 +662,6 @@ let rec nth n0 l default =
   | S m -> (match l with
             | [] -> default
             | _ :: t -> nth m t default)
-
-(** val flat_map : ('a1 -> 'a2 list) -> 'a1 list -> 'a2 list **)
-
-let rec flat_map f = function
-| [] -> []
-| x :: t -> app (f x) (flat_map f t)
-
-(** val fold_left : ('a1 -> 'a2 -> 'a1) -> 'a2 list -> 'a1 -> 'a1 **)
-
-let rec fold_left f l a0 =
-  match l with
-  | [] -> a0
-  | b :: t -> fold_left f t (f a0 b)
-
-(** val forallb : ('a1 -> bool) -> 'a1 list -> bool **)
-
-let rec forallb f = function
-| [] -> true
-| a :: l0 -> (&&) (f a) (forallb f l0)
 
 (** val firstn : nat -> 'a1 list -> 'a1 list **)
 
@@ -682,12 +681,6 @@ let rec skipn n0 l =
              | [] -> []
              | _ :: l0 -> skipn n1 l0)
 
-(** val repeat : 'a1 -> nat -> 'a1 list **)
-
-let rec repeat x = function
-| O -> []
-| S k -> x :: (repeat x k)
-
 (** val uw : z -> z -> z **)
 
 let uw bits x =
@@ -701,825 +694,259 @@ let sw bits x =
       (Z.pow (Zpos (XO XH)) bits))
     (Z.pow (Zpos (XO XH)) (Z.sub bits (Zpos XH)))
 
-(** val iWFSM_CUSTOM_HDR_DATA_OFFSET : z **)
-
-let iWFSM_CUSTOM_HDR_DATA_OFFSET =
-  Zpos (XI (XO (XI (XI (XO (XO XH))))))
-
-(** val iWKV_MAGIC : z **)
-
-let iWKV_MAGIC =
-  Zpos (XO (XI (XI (XO (XI (XI (XI (XO (XI (XI (XO (XI (XO (XI (XI (XO (XI
-    (XI (XI (XO (XI (XI (XI (XO (XI (XO (XO (XI (XO (XI
-    XH))))))))))))))))))))))))))))))
-
-(** val iWKV_BACKUP_MAGIC : z **)
-
-let iWKV_BACKUP_MAGIC =
-  Zpos (XI (XO (XO (XI (XO (XI (XI (XO (XO (XO (XI (XI (XO (XI (XO (XI (XI
-    (XI (XO (XI (XO (XO (XI (XI (XO (XI (XO (XI (XI (XI (XO
-    XH)))))))))))))))))))))))))))))))
-
-(** val wOP_SET : z **)
-
-let wOP_SET =
-  Zpos XH
-
-(** val wOP_COPY : z **)
-
-let wOP_COPY =
-  Zpos (XO XH)
-
-(** val wOP_WRITE : z **)
-
-let wOP_WRITE =
-  Zpos (XI XH)
-
-(** val wOP_RESIZE : z **)
-
-let wOP_RESIZE =
-  Zpos (XO (XO XH))
-
-(** val wOP_SAVEPOINT : z **)
-
-let wOP_SAVEPOINT =
-  Zpos (XI (XO XH))
-
-(** val wOP_RESET : z **)
-
-let wOP_RESET =
-  Zpos (XO (XI XH))
-
-(** val wOP_SEP : z **)
-
-let wOP_SEP =
-  Zpos (XI (XI (XI (XI (XI (XI XH))))))
-
-(** val sizeof_WBSEP : z **)
-
-let sizeof_WBSEP =
-  Zpos (XO (XO (XI XH)))
-
-(** val sizeof_WBRESET : z **)
-
-let sizeof_WBRESET =
-  Zpos (XO (XO XH))
-
-(** val sizeof_WBSET : z **)
-
-let sizeof_WBSET =
-  Zpos (XO (XO (XO (XI XH))))
-
-(** val sizeof_WBCOPY : z **)
-
-let sizeof_WBCOPY =
-  Zpos (XO (XO (XI (XI XH))))
-
-(** val sizeof_WBWRITE : z **)
-
-let sizeof_WBWRITE =
-  Zpos (XO (XO (XI (XO XH))))
-
-(** val sizeof_WBRESIZE : z **)
-
-let sizeof_WBRESIZE =
-  Zpos (XO (XO (XI (XO XH))))
-
-(** val sizeof_WBSAVEPOINT : z **)
-
-let sizeof_WBSAVEPOINT =
-  Zpos (XO (XO (XI XH)))
-
-(** val offsetof_WBSEP_crc : z **)
-
-let offsetof_WBSEP_crc =
-  Zpos (XO (XO XH))
-
-(** val offsetof_WBSEP_len : z **)
-
-let offsetof_WBSEP_len =
-  Zpos (XO (XO (XO XH)))
-
-(** val offsetof_WBSET_val : z **)
-
-let offsetof_WBSET_val =
-  Zpos (XO (XO XH))
-
-(** val offsetof_WBSET_off : z **)
-
-let offsetof_WBSET_off =
-  Zpos (XO (XO (XO XH)))
-
-(** val offsetof_WBSET_len : z **)
-
-let offsetof_WBSET_len =
-  Zpos (XO (XO (XO (XO XH))))
-
-(** val offsetof_WBCOPY_off : z **)
-
-let offsetof_WBCOPY_off =
-  Zpos (XO (XO XH))
-
-(** val offsetof_WBCOPY_len : z **)
-
-let offsetof_WBCOPY_len =
-  Zpos (XO (XO (XI XH)))
-
-(** val offsetof_WBCOPY_noff : z **)
-
-let offsetof_WBCOPY_noff =
-  Zpos (XO (XO (XI (XO XH))))
-
-(** val offsetof_WBWRITE_crc : z **)
-
-let offsetof_WBWRITE_crc =
-  Zpos (XO (XO XH))
-
-(** val offsetof_WBWRITE_len : z **)
-
-let offsetof_WBWRITE_len =
-  Zpos (XO (XO (XO XH)))
-
-(** val offsetof_WBWRITE_off : z **)
-
-let offsetof_WBWRITE_off =
-  Zpos (XO (XO (XI XH)))
-
-(** val offsetof_WBRESIZE_osize : z **)
-
-let offsetof_WBRESIZE_osize =
-  Zpos (XO (XO XH))
-
-(** val offsetof_WBRESIZE_nsize : z **)
-
-let offsetof_WBRESIZE_nsize =
-  Zpos (XO (XO (XI XH)))
-
-(** val offsetof_WBSAVEPOINT_ts : z **)
-
-let offsetof_WBSAVEPOINT_ts =
-  Zpos (XO (XO XH))
-
-(** val iwu_crc32_table : z list **)
-
-let iwu_crc32_table =
-  Z0 :: ((Zpos (XI (XI (XI (XO (XI (XI (XO (XI (XI (XO (XI (XI (XI (XO (XO
-    (XO (XI (XO (XO (XO (XO (XO (XI (XI (XO (XO
-    XH))))))))))))))))))))))))))) :: ((Zpos (XO (XI (XI (XI (XO (XI (XI (XO
-    (XI (XI (XO (XI (XI (XI (XO (XO (XO (XI (XO (XO (XO (XO (XO (XI (XI (XO
-    (XO XH)))))))))))))))))))))))))))) :: ((Zpos (XI (XO (XO (XI (XI (XO (XI
-    (XI (XO (XI (XI (XO (XO (XI (XO (XO (XI (XI (XO (XO (XO (XO (XI (XO (XI
-    (XO (XI XH)))))))))))))))))))))))))))) :: ((Zpos (XO (XO (XI (XI (XI (XO
-    (XI (XI (XO (XI (XI (XO (XI (XI (XI (XO (XO (XO (XI (XO (XO (XO (XO (XO
-    (XI (XI (XO (XO XH))))))))))))))))))))))))))))) :: ((Zpos (XI (XI (XO (XI
-    (XO (XI (XI (XO (XI (XI (XO (XI (XO (XI (XI (XO (XI (XO (XI (XO (XO (XO
-    (XI (XI (XI (XI (XI (XO XH))))))))))))))))))))))))))))) :: ((Zpos (XO (XI
-    (XO (XO (XI (XI (XO (XI (XI (XO (XI (XI (XO (XO (XI (XO (XO (XI (XI (XO
-    (XO (XO (XO (XI (XO (XI (XO (XI XH))))))))))))))))))))))))))))) :: ((Zpos
-    (XI (XO (XI (XO (XO (XO (XO (XO (XO (XO (XO (XO (XI (XO (XI (XO (XI (XI
-    (XI (XO (XO (XO (XI (XO (XO (XI (XI (XI
-    XH))))))))))))))))))))))))))))) :: ((Zpos (XO (XO (XO (XI (XI (XI (XO (XI
-    (XI (XO (XI (XI (XO (XI (XI (XI (XO (XO (XO (XI (XO (XO (XO (XO (XO (XI
-    (XI (XO (XO XH)))))))))))))))))))))))))))))) :: ((Zpos (XI (XI (XI (XI
-    (XO (XO (XO (XO (XO (XO (XO (XO (XI (XI (XI (XI (XI (XO (XO (XI (XO (XO
-    (XI (XI (XO (XI (XO (XO (XO XH)))))))))))))))))))))))))))))) :: ((Zpos
-    (XO (XI (XI (XO (XI (XO (XI (XI (XO (XI (XI (XO (XI (XO (XI (XI (XO (XI
-    (XO (XI (XO (XO (XO (XI (XI (XI (XI (XI (XO
-    XH)))))))))))))))))))))))))))))) :: ((Zpos (XI (XO (XO (XO (XO (XI (XI
-    (XO (XI (XI (XO (XI (XO (XO (XI (XI (XI (XI (XO (XI (XO (XO (XI (XO (XI
-    (XI (XO (XI (XO XH)))))))))))))))))))))))))))))) :: ((Zpos (XO (XO (XI
-    (XO (XO (XI (XI (XO (XI (XI (XO (XI (XI (XO (XO (XI (XO (XO (XI (XI (XO
-    (XO (XO (XO (XI (XO (XI (XO (XI
-    XH)))))))))))))))))))))))))))))) :: ((Zpos (XI (XI (XO (XO (XI (XO (XI
-    (XI (XO (XI (XI (XO (XO (XO (XO (XI (XI (XO (XI (XI (XO (XO (XI (XI (XI
-    (XO (XO (XO (XI XH)))))))))))))))))))))))))))))) :: ((Zpos (XO (XI (XO
-    (XI (XO (XO (XO (XO (XO (XO (XO (XO (XO (XI (XO (XI (XO (XI (XI (XI (XO
-    (XO (XO (XI (XO (XO (XI (XI (XI
-    XH)))))))))))))))))))))))))))))) :: ((Zpos (XI (XO (XI (XI (XI (XI (XO
-    (XI (XI (XO (XI (XI (XI (XI (XO (XI (XI (XI (XI (XI (XO (XO (XI (XO (XO
-    (XO (XO (XI (XI XH)))))))))))))))))))))))))))))) :: ((Zpos (XO (XO (XO
-    (XO (XI (XI (XI (XO (XI (XI (XO (XI (XI (XO (XI (XI (XI (XO (XO (XO (XI
-    (XO (XO (XO (XO (XO (XI (XI (XO (XO
-    XH))))))))))))))))))))))))))))))) :: ((Zpos (XI (XI (XI (XO (XO (XO (XI
-    (XI (XO (XI (XI (XO (XO (XO (XI (XI (XO (XO (XO (XO (XI (XO (XI (XI (XO
-    (XO (XO (XI (XO (XO XH))))))))))))))))))))))))))))))) :: ((Zpos (XO (XI
-    (XI (XI (XI (XO (XO (XO (XO (XO (XO (XO (XO (XI (XI (XI (XI (XI (XO (XO
-    (XI (XO (XO (XI (XI (XO (XI (XO (XO (XO
-    XH))))))))))))))))))))))))))))))) :: ((Zpos (XI (XO (XO (XI (XO (XI (XO
-    (XI (XI (XO (XI (XI (XI (XI (XI (XI (XO (XI (XO (XO (XI (XO (XI (XO (XI
-    (XO (XO (XO (XO (XO XH))))))))))))))))))))))))))))))) :: ((Zpos (XO (XO
-    (XI (XI (XO (XI (XO (XI (XI (XO (XI (XI (XO (XI (XO (XI (XI (XO (XI (XO
-    (XI (XO (XO (XO (XI (XI (XI (XI (XI (XO
-    XH))))))))))))))))))))))))))))))) :: ((Zpos (XI (XI (XO (XI (XI (XO (XO
-    (XO (XO (XO (XO (XO (XI (XI (XO (XI (XO (XO (XI (XO (XI (XO (XI (XI (XI
-    (XI (XO (XI (XI (XO XH))))))))))))))))))))))))))))))) :: ((Zpos (XO (XI
-    (XO (XO (XO (XO (XI (XI (XO (XI (XI (XO (XI (XO (XO (XI (XI (XI (XI (XO
-    (XI (XO (XO (XI (XO (XI (XI (XO (XI (XO
-    XH))))))))))))))))))))))))))))))) :: ((Zpos (XI (XO (XI (XO (XI (XI (XI
-    (XO (XI (XI (XO (XI (XO (XO (XO (XI (XO (XI (XI (XO (XI (XO (XI (XO (XO
-    (XI (XO (XO (XI (XO XH))))))))))))))))))))))))))))))) :: ((Zpos (XO (XO
-    (XO (XI (XO (XO (XI (XI (XO (XI (XI (XO (XI (XI (XO (XO (XI (XO (XO (XI
-    (XI (XO (XO (XO (XO (XI (XO (XI (XO (XI
-    XH))))))))))))))))))))))))))))))) :: ((Zpos (XI (XI (XI (XI (XI (XI (XI
-    (XO (XI (XI (XO (XI (XO (XI (XO (XO (XO (XO (XO (XI (XI (XO (XI (XI (XO
-    (XI (XI (XI (XO (XI XH))))))))))))))))))))))))))))))) :: ((Zpos (XO (XI
-    (XI (XO (XO (XI (XO (XI (XI (XO (XI (XI (XO (XO (XO (XO (XI (XI (XO (XI
-    (XI (XO (XO (XI (XI (XI (XO (XO (XO (XI
-    XH))))))))))))))))))))))))))))))) :: ((Zpos (XI (XO (XO (XO (XI (XO (XO
-    (XO (XO (XO (XO (XO (XI (XO (XO (XO (XO (XI (XO (XI (XI (XO (XI (XO (XI
-    (XI (XI (XO (XO (XI XH))))))))))))))))))))))))))))))) :: ((Zpos (XO (XO
-    (XI (XO (XI (XO (XO (XO (XO (XO (XO (XO (XO (XO (XI (XO (XI (XO (XI (XI
-    (XI (XO (XO (XO (XI (XO (XO (XI (XI (XI
-    XH))))))))))))))))))))))))))))))) :: ((Zpos (XI (XI (XO (XO (XO (XI (XO
-    (XI (XI (XO (XI (XI (XI (XO (XI (XO (XO (XO (XI (XI (XI (XO (XI (XI (XI
-    (XO (XI (XI (XI (XI XH))))))))))))))))))))))))))))))) :: ((Zpos (XO (XI
-    (XO (XI (XI (XI (XI (XO (XI (XI (XO (XI (XI (XI (XI (XO (XI (XI (XI (XI
-    (XI (XO (XO (XI (XO (XO (XO (XO (XI (XI
-    XH))))))))))))))))))))))))))))))) :: ((Zpos (XI (XO (XI (XI (XO (XO (XI
-    (XI (XO (XI (XI (XO (XO (XI (XI (XO (XO (XI (XI (XI (XI (XO (XI (XO (XO
-    (XO (XI (XO (XI (XI XH))))))))))))))))))))))))))))))) :: ((Zpos (XO (XO
-    (XO (XO (XO (XI (XI (XI (XO (XI (XI (XO (XI (XI (XO (XI (XI (XI (XO (XO
-    (XO (XI (XO (XO (XO (XO (XO (XI (XI (XO (XO
-    XH)))))))))))))))))))))))))))))))) :: ((Zpos (XI (XI (XI (XO (XI (XO (XI
-    (XO (XI (XI (XO (XI (XO (XI (XO (XI (XO (XI (XO (XO (XO (XI (XI (XI (XO
-    (XO (XI (XI (XI (XO (XO XH)))))))))))))))))))))))))))))))) :: ((Zpos (XO
-    (XI (XI (XI (XO (XO (XO (XI (XI (XO (XI (XI (XO (XO (XO (XI (XI (XO (XO
-    (XO (XO (XI (XO (XI (XI (XO (XO (XO (XI (XO (XO
-    XH)))))))))))))))))))))))))))))))) :: ((Zpos (XI (XO (XO (XI (XI (XI (XO
-    (XO (XO (XO (XO (XO (XI (XO (XO (XI (XO (XO (XO (XO (XO (XI (XI (XO (XI
-    (XO (XI (XO (XI (XO (XO XH)))))))))))))))))))))))))))))))) :: ((Zpos (XO
-    (XO (XI (XI (XI (XI (XO (XO (XO (XO (XO (XO (XO (XO (XI (XI (XI (XI (XI
-    (XO (XO (XI (XO (XO (XI (XI (XO (XI (XO (XO (XO
-    XH)))))))))))))))))))))))))))))))) :: ((Zpos (XI (XI (XO (XI (XO (XO (XO
-    (XI (XI (XO (XI (XI (XI (XO (XI (XI (XO (XI (XI (XO (XO (XI (XI (XI (XI
-    (XI (XI (XI (XO (XO (XO XH)))))))))))))))))))))))))))))))) :: ((Zpos (XO
-    (XI (XO (XO (XI (XO (XI (XO (XI (XI (XO (XI (XI (XI (XI (XI (XI (XO (XI
-    (XO (XO (XI (XO (XI (XO (XI (XO (XO (XO (XO (XO
-    XH)))))))))))))))))))))))))))))))) :: ((Zpos (XI (XO (XI (XO (XO (XI (XI
-    (XI (XO (XI (XI (XO (XO (XI (XI (XI (XO (XO (XI (XO (XO (XI (XI (XO (XO
-    (XI (XI (XO (XO (XO (XO XH)))))))))))))))))))))))))))))))) :: ((Zpos (XO
-    (XO (XO (XI (XI (XO (XI (XO (XI (XI (XO (XI (XI (XO (XI (XO (XI (XI (XO
-    (XI (XO (XI (XO (XO (XO (XI (XI (XI (XI (XI (XO
-    XH)))))))))))))))))))))))))))))))) :: ((Zpos (XI (XI (XI (XI (XO (XI (XI
-    (XI (XO (XI (XI (XO (XO (XO (XI (XO (XO (XI (XO (XI (XO (XI (XI (XI (XO
-    (XI (XO (XI (XI (XI (XO XH)))))))))))))))))))))))))))))))) :: ((Zpos (XO
-    (XI (XI (XO (XI (XI (XO (XO (XO (XO (XO (XO (XO (XI (XI (XO (XI (XO (XO
-    (XI (XO (XI (XO (XI (XI (XI (XI (XO (XI (XI (XO
-    XH)))))))))))))))))))))))))))))))) :: ((Zpos (XI (XO (XO (XO (XO (XO (XO
-    (XI (XI (XO (XI (XI (XI (XI (XI (XO (XO (XO (XO (XI (XO (XI (XI (XO (XI
-    (XI (XO (XO (XI (XI (XO XH)))))))))))))))))))))))))))))))) :: ((Zpos (XO
-    (XO (XI (XO (XO (XO (XO (XI (XI (XO (XI (XI (XO (XI (XO (XO (XI (XI (XI
-    (XI (XO (XI (XO (XO (XI (XO (XI (XI (XO (XI (XO
-    XH)))))))))))))))))))))))))))))))) :: ((Zpos (XI (XI (XO (XO (XI (XI (XO
-    (XO (XO (XO (XO (XO (XI (XI (XO (XO (XO (XI (XI (XI (XO (XI (XI (XI (XI
-    (XO (XO (XI (XO (XI (XO XH)))))))))))))))))))))))))))))))) :: ((Zpos (XO
-    (XI (XO (XI (XO (XI (XI (XI (XO (XI (XI (XO (XI (XO (XO (XO (XI (XO (XI
-    (XI (XO (XI (XO (XI (XO (XO (XI (XO (XO (XI (XO
-    XH)))))))))))))))))))))))))))))))) :: ((Zpos (XI (XO (XI (XI (XI (XO (XI
-    (XO (XI (XI (XO (XI (XO (XO (XO (XO (XO (XO (XI (XI (XO (XI (XI (XO (XO
-    (XO (XO (XO (XO (XI (XO XH)))))))))))))))))))))))))))))))) :: ((Zpos (XO
-    (XO (XO (XO (XI (XO (XO (XI (XI (XO (XI (XI (XO (XI (XI (XO (XO (XI (XO
-    (XO (XI (XI (XO (XO (XO (XO (XI (XO (XI (XO (XI
-    XH)))))))))))))))))))))))))))))))) :: ((Zpos (XI (XI (XI (XO (XO (XI (XO
-    (XO (XO (XO (XO (XO (XI (XI (XI (XO (XI (XI (XO (XO (XI (XI (XI (XI (XO
-    (XO (XO (XO (XI (XO (XI XH)))))))))))))))))))))))))))))))) :: ((Zpos (XO
-    (XI (XI (XI (XI (XI (XI (XI (XO (XI (XI (XO (XI (XO (XI (XO (XO (XO (XO
-    (XO (XI (XI (XO (XI (XI (XO (XI (XI (XI (XO (XI
-    XH)))))))))))))))))))))))))))))))) :: ((Zpos (XI (XO (XO (XI (XO (XO (XI
-    (XO (XI (XI (XO (XI (XO (XO (XI (XO (XI (XO (XO (XO (XI (XI (XI (XO (XI
-    (XO (XO (XI (XI (XO (XI XH)))))))))))))))))))))))))))))))) :: ((Zpos (XO
-    (XO (XI (XI (XO (XO (XI (XO (XI (XI (XO (XI (XI (XO (XO (XO (XO (XI (XI
-    (XO (XI (XI (XO (XO (XI (XI (XI (XO (XO (XO (XI
-    XH)))))))))))))))))))))))))))))))) :: ((Zpos (XI (XI (XO (XI (XI (XI (XI
-    (XI (XO (XI (XI (XO (XO (XO (XO (XO (XI (XI (XI (XO (XI (XI (XI (XI (XI
-    (XI (XO (XO (XO (XO (XI XH)))))))))))))))))))))))))))))))) :: ((Zpos (XO
-    (XI (XO (XO (XO (XI (XO (XO (XO (XO (XO (XO (XO (XI (XO (XO (XO (XO (XI
-    (XO (XI (XI (XO (XI (XO (XI (XI (XI (XO (XO (XI
-    XH)))))))))))))))))))))))))))))))) :: ((Zpos (XI (XO (XI (XO (XI (XO (XO
-    (XI (XI (XO (XI (XI (XI (XI (XO (XO (XI (XO (XI (XO (XI (XI (XI (XO (XO
-    (XI (XO (XI (XO (XO (XI XH)))))))))))))))))))))))))))))))) :: ((Zpos (XO
-    (XO (XO (XI (XO (XI (XO (XO (XO (XO (XO (XO (XO (XO (XO (XI (XO (XI (XO
-    (XI (XI (XI (XO (XO (XO (XI (XO (XO (XI (XI (XI
-    XH)))))))))))))))))))))))))))))))) :: ((Zpos (XI (XI (XI (XI (XI (XO (XO
-    (XI (XI (XO (XI (XI (XI (XO (XO (XI (XI (XI (XO (XI (XI (XI (XI (XI (XO
-    (XI (XI (XO (XI (XI (XI XH)))))))))))))))))))))))))))))))) :: ((Zpos (XO
-    (XI (XI (XO (XO (XO (XI (XO (XI (XI (XO (XI (XI (XI (XO (XI (XO (XO (XO
-    (XI (XI (XI (XO (XI (XI (XI (XO (XI (XI (XI (XI
-    XH)))))))))))))))))))))))))))))))) :: ((Zpos (XI (XO (XO (XO (XI (XI (XI
-    (XI (XO (XI (XI (XO (XO (XI (XO (XI (XI (XO (XO (XI (XI (XI (XI (XO (XI
-    (XI (XI (XI (XI (XI (XI XH)))))))))))))))))))))))))))))))) :: ((Zpos (XO
-    (XO (XI (XO (XI (XI (XI (XI (XO (XI (XI (XO (XI (XI (XI (XI (XO (XI (XI
-    (XI (XI (XI (XO (XO (XI (XO (XO (XO (XO (XI (XI
-    XH)))))))))))))))))))))))))))))))) :: ((Zpos (XI (XI (XO (XO (XO (XO (XI
-    (XO (XI (XI (XO (XI (XO (XI (XI (XI (XI (XI (XI (XI (XI (XI (XI (XI (XI
-    (XO (XI (XO (XO (XI (XI XH)))))))))))))))))))))))))))))))) :: ((Zpos (XO
-    (XI (XO (XI (XI (XO (XO (XI (XI (XO (XI (XI (XO (XO (XI (XI (XO (XO (XI
-    (XI (XI (XI (XO (XI (XO (XO (XO (XI (XO (XI (XI
-    XH)))))))))))))))))))))))))))))))) :: ((Zpos (XI (XO (XI (XI (XO (XI (XO
-    (XO (XO (XO (XO (XO (XI (XO (XI (XI (XI (XO (XI (XI (XI (XI (XI (XO (XO
-    (XO (XI (XI (XO (XI (XI XH)))))))))))))))))))))))))))))))) :: ((Zpos (XI
-    (XI (XI (XO (XI (XI (XI (XO (XO (XO (XO (XO (XI (XI (XI (XO (XO (XI (XI
-    (XO (XO (XO (XO (XI (XO (XO (XI (XO (XI
-    XH)))))))))))))))))))))))))))))) :: ((Zpos (XO (XO (XO (XO (XO (XO (XI
-    (XI (XI (XO (XI (XI (XO (XI (XI (XO (XI (XI (XI (XO (XO (XO (XI (XO (XO
-    (XO (XO (XO (XI XH)))))))))))))))))))))))))))))) :: ((Zpos (XI (XO (XO
-    (XI (XI (XO (XO (XO (XI (XI (XO (XI (XO (XO (XI (XO (XO (XO (XI (XO (XO
-    (XO (XO (XO (XI (XO (XI (XI (XI
-    XH)))))))))))))))))))))))))))))) :: ((Zpos (XO (XI (XI (XI (XO (XI (XO
-    (XI (XO (XI (XI (XO (XI (XO (XI (XO (XI (XO (XI (XO (XO (XO (XI (XI (XI
-    (XO (XO (XI (XI XH)))))))))))))))))))))))))))))) :: ((Zpos (XI (XI (XO
-    (XI (XO (XI (XO (XI (XO (XI (XI (XO (XO (XO (XO (XO (XO (XI (XO (XO (XO
-    (XO (XO (XI (XI (XI (XI (XO (XO
-    XH)))))))))))))))))))))))))))))) :: ((Zpos (XO (XO (XI (XI (XI (XO (XO
-    (XO (XI (XI (XO (XI (XI (XO (XO (XO (XI (XI (XO (XO (XO (XO (XI (XO (XI
-    (XI (XO (XO (XO XH)))))))))))))))))))))))))))))) :: ((Zpos (XI (XO (XI
-    (XO (XO (XO (XI (XI (XI (XO (XI (XI (XI (XI (XO (XO (XO (XO (XO (XO (XO
-    (XO (XO (XO (XO (XI (XI (XI (XO
-    XH)))))))))))))))))))))))))))))) :: ((Zpos (XO (XI (XO (XO (XI (XI (XI
-    (XO (XO (XO (XO (XO (XO (XI (XO (XO (XI (XO (XO (XO (XO (XO (XI (XI (XO
-    (XI (XO (XI (XO XH)))))))))))))))))))))))))))))) :: ((Zpos (XI (XI (XI
-    (XI (XO (XO (XI (XI (XI (XO (XI (XI (XI (XO (XO (XI (XO (XI (XI (XI (XO
-    (XO (XO (XI (XO (XI (XO (XO XH))))))))))))))))))))))))))))) :: ((Zpos (XO
-    (XO (XO (XI (XI (XI (XI (XO (XO (XO (XO (XO (XO (XO (XO (XI (XI (XI (XI
-    (XI (XO (XO (XI (XO (XO (XI (XI (XO
-    XH))))))))))))))))))))))))))))) :: ((Zpos (XI (XO (XO (XO (XO (XI (XO (XI
-    (XO (XI (XI (XO (XO (XI (XO (XI (XO (XO (XI (XI (XO (XO (XO (XO (XI (XI
-    (XO (XI XH))))))))))))))))))))))))))))) :: ((Zpos (XO (XI (XI (XO (XI (XO
-    (XO (XO (XI (XI (XO (XI (XI (XI (XO (XI (XI (XO (XI (XI (XO (XO (XI (XI
-    (XI (XI (XI (XI XH))))))))))))))))))))))))))))) :: ((Zpos (XI (XI (XO (XO
-    (XI (XO (XO (XO (XI (XI (XO (XI (XO (XI (XI (XI (XO (XI (XO (XI (XO (XO
-    (XO (XI XH))))))))))))))))))))))))) :: ((Zpos (XO (XO (XI (XO (XO (XI (XO
-    (XI (XO (XI (XI (XO (XI (XI (XI (XI (XI (XI (XO (XI (XO (XO (XI (XO (XI
-    (XO XH))))))))))))))))))))))))))) :: ((Zpos (XI (XO (XI (XI (XI (XI (XI
-    (XO (XO (XO (XO (XO (XI (XO (XI (XI (XO (XO (XO (XI (XO (XO (XO (XO (XO
-    (XO (XO XH)))))))))))))))))))))))))))) :: ((Zpos (XO (XI (XO (XI (XO (XO
-    (XI (XI (XI (XO (XI (XI (XO (XO (XI (XI (XI (XO (XO (XI (XO (XO (XI (XI
-    (XO (XO (XI XH)))))))))))))))))))))))))))) :: ((Zpos (XI (XI (XI (XO (XO
-    (XO (XO (XO (XI (XI (XO (XI (XO (XI (XO (XI (XI (XI (XI (XO (XI (XO (XO
-    (XI (XO (XO (XO (XI (XI (XI XH))))))))))))))))))))))))))))))) :: ((Zpos
-    (XO (XO (XO (XO (XI (XI (XO (XI (XO (XI (XI (XO (XI (XI (XO (XI (XO (XI
-    (XI (XO (XI (XO (XI (XO (XO (XO (XI (XI (XI (XI
-    XH))))))))))))))))))))))))))))))) :: ((Zpos (XI (XO (XO (XI (XO (XI (XI
-    (XO (XO (XO (XO (XO (XI (XO (XO (XI (XI (XO (XI (XO (XI (XO (XO (XO (XI
-    (XO (XO (XO (XI (XI XH))))))))))))))))))))))))))))))) :: ((Zpos (XO (XI
-    (XI (XI (XI (XO (XI (XI (XI (XO (XI (XI (XO (XO (XO (XI (XO (XO (XI (XO
-    (XI (XO (XI (XI (XI (XO (XI (XO (XI (XI
-    XH))))))))))))))))))))))))))))))) :: ((Zpos (XI (XI (XO (XI (XI (XO (XI
-    (XI (XI (XO (XI (XI (XI (XO (XI (XI (XI (XI (XO (XO (XI (XO (XO (XI (XI
-    (XI (XO (XI (XO (XI XH))))))))))))))))))))))))))))))) :: ((Zpos (XO (XO
-    (XI (XI (XO (XI (XI (XO (XO (XO (XO (XO (XO (XO (XI (XI (XO (XI (XO (XO
-    (XI (XO (XI (XO (XI (XI (XI (XI (XO (XI
-    XH))))))))))))))))))))))))))))))) :: ((Zpos (XI (XO (XI (XO (XI (XI (XO
-    (XI (XO (XI (XI (XO (XO (XI (XI (XI (XI (XO (XO (XO (XI (XO (XO (XO (XO
-    (XI (XO (XO (XO (XI XH))))))))))))))))))))))))))))))) :: ((Zpos (XO (XI
-    (XO (XO (XO (XO (XO (XO (XI (XI (XO (XI (XI (XI (XI (XI (XO (XO (XO (XO
-    (XI (XO (XI (XI (XO (XI (XI (XO (XO (XI
-    XH))))))))))))))))))))))))))))))) :: ((Zpos (XI (XI (XI (XI (XI (XI (XO
-    (XI (XO (XI (XI (XO (XO (XO (XI (XO (XI (XI (XI (XI (XI (XO (XO (XI (XO
-    (XI (XI (XI (XI (XO XH))))))))))))))))))))))))))))))) :: ((Zpos (XO (XO
-    (XO (XI (XO (XO (XO (XO (XI (XI (XO (XI (XI (XO (XI (XO (XO (XI (XI (XI
-    (XI (XO (XI (XO (XO (XI (XO (XI (XI (XO
-    XH))))))))))))))))))))))))))))))) :: ((Zpos (XI (XO (XO (XO (XI (XO (XI
-    (XI (XI (XO (XI (XI (XI (XI (XI (XO (XI (XO (XI (XI (XI (XO (XO (XO (XI
-    (XI (XI (XO (XI (XO XH))))))))))))))))))))))))))))))) :: ((Zpos (XO (XI
-    (XI (XO (XO (XI (XI (XO (XO (XO (XO (XO (XO (XI (XI (XO (XO (XO (XI (XI
-    (XI (XO (XI (XI (XI (XI (XO (XO (XI (XO
-    XH))))))))))))))))))))))))))))))) :: ((Zpos (XI (XI (XO (XO (XO (XI (XI
-    (XO (XO (XO (XO (XO (XI (XI (XO (XO (XI (XI (XO (XI (XI (XO (XO (XI (XI
-    (XO (XI (XI (XO (XO XH))))))))))))))))))))))))))))))) :: ((Zpos (XO (XO
-    (XI (XO (XI (XO (XI (XI (XI (XO (XI (XI (XO (XI (XO (XO (XO (XI (XO (XI
-    (XI (XO (XI (XO (XI (XO (XO (XI (XO (XO
-    XH))))))))))))))))))))))))))))))) :: ((Zpos (XI (XO (XI (XI (XO (XO (XO
-    (XO (XI (XI (XO (XI (XO (XO (XO (XO (XI (XO (XO (XI (XI (XO (XO (XO (XO
-    (XO (XI (XO (XO (XO XH))))))))))))))))))))))))))))))) :: ((Zpos (XO (XI
-    (XO (XI (XI (XI (XO (XI (XO (XI (XI (XO (XI (XO (XO (XO (XO (XO (XO (XI
-    (XI (XO (XI (XI (XO (XO (XO (XO (XO (XO
-    XH))))))))))))))))))))))))))))))) :: ((Zpos (XI (XI (XI (XO (XI (XO (XO
-    (XI (XO (XI (XI (XO (XO (XO (XI (XI (XI (XO (XI (XO (XO (XI (XO (XI (XO
-    (XO (XI (XI (XO (XI (XO XH)))))))))))))))))))))))))))))))) :: ((Zpos (XO
-    (XO (XO (XO (XO (XI (XO (XO (XI (XI (XO (XI (XI (XO (XI (XI (XO (XO (XI
-    (XO (XO (XI (XI (XO (XO (XO (XO (XI (XO (XI (XO
-    XH)))))))))))))))))))))))))))))))) :: ((Zpos (XI (XO (XO (XI (XI (XI (XI
-    (XI (XI (XO (XI (XI (XI (XI (XI (XI (XI (XI (XI (XO (XO (XI (XO (XO (XI
-    (XO (XI (XO (XO (XI (XO XH)))))))))))))))))))))))))))))))) :: ((Zpos (XO
-    (XI (XI (XI (XO (XO (XI (XO (XO (XO (XO (XO (XO (XI (XI (XI (XO (XI (XI
-    (XO (XO (XI (XI (XI (XI (XO (XO (XO (XO (XI (XO
-    XH)))))))))))))))))))))))))))))))) :: ((Zpos (XI (XI (XO (XI (XO (XO (XI
-    (XO (XO (XO (XO (XO (XI (XI (XO (XI (XI (XO (XO (XO (XO (XI (XO (XI (XI
-    (XI (XI (XI (XI (XI (XO XH)))))))))))))))))))))))))))))))) :: ((Zpos (XO
-    (XO (XI (XI (XI (XI (XI (XI (XI (XO (XI (XI (XO (XI (XO (XI (XO (XO (XO
-    (XO (XO (XI (XI (XO (XI (XI (XO (XI (XI (XI (XO
-    XH)))))))))))))))))))))))))))))))) :: ((Zpos (XI (XO (XI (XO (XO (XI (XO
-    (XO (XI (XI (XO (XI (XO (XO (XO (XI (XI (XI (XO (XO (XO (XI (XO (XO (XO
-    (XI (XI (XO (XI (XI (XO XH)))))))))))))))))))))))))))))))) :: ((Zpos (XO
-    (XI (XO (XO (XI (XO (XO (XI (XO (XI (XI (XO (XI (XO (XO (XI (XO (XI (XO
-    (XO (XO (XI (XI (XI (XO (XI (XO (XO (XI (XI (XO
-    XH)))))))))))))))))))))))))))))))) :: ((Zpos (XI (XI (XI (XI (XO (XI (XO
-    (XO (XI (XI (XO (XI (XO (XI (XO (XO (XI (XO (XI (XI (XO (XI (XO (XI (XO
-    (XI (XO (XI (XO (XO (XO XH)))))))))))))))))))))))))))))))) :: ((Zpos (XO
-    (XO (XO (XI (XI (XO (XO (XI (XO (XI (XI (XO (XI (XI (XO (XO (XO (XO (XI
-    (XI (XO (XI (XI (XO (XO (XI (XI (XI (XO (XO (XO
-    XH)))))))))))))))))))))))))))))))) :: ((Zpos (XI (XO (XO (XO (XO (XO (XI
-    (XO (XO (XO (XO (XO (XI (XO (XO (XO (XI (XI (XI (XI (XO (XI (XO (XO (XI
-    (XI (XO (XO (XO (XO (XO XH)))))))))))))))))))))))))))))))) :: ((Zpos (XO
-    (XI (XI (XO (XI (XI (XI (XI (XI (XO (XI (XI (XO (XO (XO (XO (XO (XI (XI
-    (XI (XO (XI (XI (XI (XI (XI (XI (XO (XO (XO (XO
-    XH)))))))))))))))))))))))))))))))) :: ((Zpos (XI (XI (XO (XO (XI (XI (XI
-    (XI (XI (XO (XI (XI (XI (XO (XI (XO (XI (XO (XO (XI (XO (XI (XO (XI (XI
-    (XO (XO (XI (XI (XO (XO XH)))))))))))))))))))))))))))))))) :: ((Zpos (XO
-    (XO (XI (XO (XO (XO (XI (XO (XO (XO (XO (XO (XO (XO (XI (XO (XO (XO (XO
-    (XI (XO (XI (XI (XO (XI (XO (XI (XI (XI (XO (XO
-    XH)))))))))))))))))))))))))))))))) :: ((Zpos (XI (XO (XI (XI (XI (XO (XO
-    (XI (XO (XI (XI (XO (XO (XI (XI (XO (XI (XI (XO (XI (XO (XI (XO (XO (XO
-    (XO (XO (XO (XI (XO (XO XH)))))))))))))))))))))))))))))))) :: ((Zpos (XO
-    (XI (XO (XI (XO (XI (XO (XO (XI (XI (XO (XI (XI (XI (XI (XO (XO (XI (XO
-    (XI (XO (XI (XI (XI (XO (XO (XI (XO (XI (XO (XO
-    XH)))))))))))))))))))))))))))))))) :: ((Zpos (XI (XI (XI (XO (XO (XI (XI
-    (XI (XI (XO (XI (XI (XI (XO (XO (XO (XO (XO (XI (XO (XI (XI (XO (XI (XO
-    (XO (XO (XO (XO (XI (XI XH)))))))))))))))))))))))))))))))) :: ((Zpos (XO
-    (XO (XO (XO (XI (XO (XI (XO (XO (XO (XO (XO (XO (XO (XO (XO (XI (XO (XI
-    (XO (XI (XI (XI (XO (XO (XO (XI (XO (XO (XI (XI
-    XH)))))))))))))))))))))))))))))))) :: ((Zpos (XI (XO (XO (XI (XO (XO (XO
-    (XI (XO (XI (XI (XO (XO (XI (XO (XO (XO (XI (XI (XO (XI (XI (XO (XO (XI
-    (XO (XO (XI (XO (XI (XI XH)))))))))))))))))))))))))))))))) :: ((Zpos (XO
-    (XI (XI (XI (XI (XI (XO (XO (XI (XI (XO (XI (XI (XI (XO (XO (XI (XI (XI
-    (XO (XI (XI (XI (XI (XI (XO (XI (XI (XO (XI (XI
-    XH)))))))))))))))))))))))))))))))) :: ((Zpos (XI (XI (XO (XI (XI (XI (XO
-    (XO (XI (XI (XO (XI (XO (XI (XI (XO (XO (XO (XO (XO (XI (XI (XO (XI (XI
-    (XI (XO (XO (XI (XI (XI XH)))))))))))))))))))))))))))))))) :: ((Zpos (XO
-    (XO (XI (XI (XO (XO (XO (XI (XO (XI (XI (XO (XI (XI (XI (XO (XI (XO (XO
-    (XO (XI (XI (XI (XO (XI (XI (XI (XO (XI (XI (XI
-    XH)))))))))))))))))))))))))))))))) :: ((Zpos (XI (XO (XI (XO (XI (XO (XI
-    (XO (XO (XO (XO (XO (XI (XO (XI (XO (XO (XI (XO (XO (XI (XI (XO (XO (XO
-    (XI (XO (XI (XI (XI (XI XH)))))))))))))))))))))))))))))))) :: ((Zpos (XO
-    (XI (XO (XO (XO (XI (XI (XI (XI (XO (XI (XI (XO (XO (XI (XO (XI (XI (XO
-    (XO (XI (XI (XI (XI (XO (XI (XI (XI (XI (XI (XI
-    XH)))))))))))))))))))))))))))))))) :: ((Zpos (XI (XI (XI (XI (XI (XO (XI
-    (XO (XO (XO (XO (XO (XI (XI (XI (XI (XO (XO (XI (XI (XI (XI (XO (XI (XO
-    (XI (XI (XO (XO (XO (XI XH)))))))))))))))))))))))))))))))) :: ((Zpos (XO
-    (XO (XO (XI (XO (XI (XI (XI (XI (XO (XI (XI (XO (XI (XI (XI (XI (XO (XI
-    (XI (XI (XI (XI (XO (XO (XI (XO (XO (XO (XO (XI
-    XH)))))))))))))))))))))))))))))))) :: ((Zpos (XI (XO (XO (XO (XI (XI (XO
-    (XO (XI (XI (XO (XI (XO (XO (XI (XI (XO (XI (XI (XI (XI (XI (XO (XO (XI
-    (XI (XI (XI (XO (XO (XI XH)))))))))))))))))))))))))))))))) :: ((Zpos (XO
-    (XI (XI (XO (XO (XO (XO (XI (XO (XI (XI (XO (XI (XO (XI (XI (XI (XI (XI
-    (XI (XI (XI (XI (XI (XI (XI (XO (XI (XO (XO (XI
-    XH)))))))))))))))))))))))))))))))) :: ((Zpos (XI (XI (XO (XO (XO (XO (XO
-    (XI (XO (XI (XI (XO (XO (XO (XO (XI (XO (XO (XO (XI (XI (XI (XO (XI (XI
-    (XO (XI (XO (XI (XO (XI XH)))))))))))))))))))))))))))))))) :: ((Zpos (XO
-    (XO (XI (XO (XI (XI (XO (XO (XI (XI (XO (XI (XI (XO (XO (XI (XI (XO (XO
-    (XI (XI (XI (XI (XO (XI (XO (XO (XO (XI (XO (XI
-    XH)))))))))))))))))))))))))))))))) :: ((Zpos (XI (XO (XI (XI (XO (XI (XI
-    (XI (XI (XO (XI (XI (XI (XI (XO (XI (XO (XI (XO (XI (XI (XI (XO (XO (XO
-    (XO (XI (XI (XI (XO (XI XH)))))))))))))))))))))))))))))))) :: ((Zpos (XO
-    (XI (XO (XI (XI (XO (XI (XO (XO (XO (XO (XO (XO (XI (XO (XI (XI (XI (XO
-    (XI (XI (XI (XI (XI (XO (XO (XO (XI (XI (XO (XI
-    XH)))))))))))))))))))))))))))))))) :: ((Zpos (XO (XI (XI (XI (XO (XI (XI
-    (XI (XO (XO (XO (XO (XO (XI (XI (XI (XO (XO (XI (XI (XO (XO (XO (XO (XI
-    (XO (XO (XI (XO (XI XH))))))))))))))))))))))))))))))) :: ((Zpos (XI (XO
-    (XO (XI (XI (XO (XI (XO (XI (XO (XI (XI (XI (XI (XI (XI (XI (XO (XI (XI
-    (XO (XO (XI (XI (XI (XO (XI (XI (XO (XI
-    XH))))))))))))))))))))))))))))))) :: ((Zpos (XO (XO (XO (XO (XO (XO (XO
-    (XI (XI (XI (XO (XI (XI (XO (XI (XI (XO (XI (XI (XI (XO (XO (XO (XI (XO
-    (XO (XO (XO (XO (XI XH))))))))))))))))))))))))))))))) :: ((Zpos (XI (XI
-    (XI (XO (XI (XI (XO (XO (XO (XI (XI (XO (XO (XO (XI (XI (XI (XI (XI (XI
-    (XO (XO (XI (XO (XO (XO (XI (XO (XO (XI
-    XH))))))))))))))))))))))))))))))) :: ((Zpos (XO (XI (XO (XO (XI (XI (XO
-    (XO (XO (XI (XI (XO (XI (XO (XO (XI (XO (XO (XO (XI (XO (XO (XO (XO (XO
-    (XI (XO (XI (XI (XI XH))))))))))))))))))))))))))))))) :: ((Zpos (XI (XO
-    (XI (XO (XO (XO (XO (XI (XI (XI (XO (XI (XO (XO (XO (XI (XI (XO (XO (XI
-    (XO (XO (XI (XI (XO (XI (XI (XI (XI (XI
-    XH))))))))))))))))))))))))))))))) :: ((Zpos (XO (XO (XI (XI (XI (XO (XI
-    (XO (XI (XO (XI (XI (XO (XI (XO (XI (XO (XI (XO (XI (XO (XO (XO (XI (XI
-    (XI (XO (XO (XI (XI XH))))))))))))))))))))))))))))))) :: ((Zpos (XI (XI
-    (XO (XI (XO (XI (XI (XI (XO (XO (XO (XO (XI (XI (XO (XI (XI (XI (XO (XI
-    (XO (XO (XI (XO (XI (XI (XI (XO (XI (XI
-    XH))))))))))))))))))))))))))))))) :: ((Zpos (XO (XI (XI (XO (XI (XO (XI
-    (XO (XI (XO (XI (XI (XO (XO (XO (XO (XO (XO (XI (XO (XO (XO (XO (XO (XI
-    (XI (XI (XI (XO (XO XH))))))))))))))))))))))))))))))) :: ((Zpos (XI (XO
-    (XO (XO (XO (XI (XI (XI (XO (XO (XO (XO (XI (XO (XO (XO (XI (XO (XI (XO
-    (XO (XO (XI (XI (XI (XI (XO (XI (XO (XO
-    XH))))))))))))))))))))))))))))))) :: ((Zpos (XO (XO (XO (XI (XI (XI (XO
-    (XO (XO (XI (XI (XO (XI (XI (XO (XO (XO (XI (XI (XO (XO (XO (XO (XI (XO
-    (XI (XI (XO (XO (XO XH))))))))))))))))))))))))))))))) :: ((Zpos (XI (XI
-    (XI (XI (XO (XO (XO (XI (XI (XI (XO (XI (XO (XI (XO (XO (XI (XI (XI (XO
-    (XO (XO (XI (XO (XO (XI (XO (XO (XO (XO
-    XH))))))))))))))))))))))))))))))) :: ((Zpos (XO (XI (XO (XI (XO (XO (XO
-    (XI (XI (XI (XO (XI (XI (XI (XI (XO (XO (XO (XO (XO (XO (XO (XO (XO (XO
-    (XO (XI (XI (XI (XO XH))))))))))))))))))))))))))))))) :: ((Zpos (XI (XO
-    (XI (XI (XI (XI (XO (XO (XO (XI (XI (XO (XO (XI (XI (XO (XI (XO (XO (XO
-    (XO (XO (XI (XI (XO (XO (XO (XI (XI (XO
-    XH))))))))))))))))))))))))))))))) :: ((Zpos (XO (XO (XI (XO (XO (XI (XI
-    (XI (XO (XO (XO (XO (XO (XO (XI (XO (XO (XI (XO (XO (XO (XO (XO (XI (XI
-    (XO (XI (XO (XI (XO XH))))))))))))))))))))))))))))))) :: ((Zpos (XI (XI
-    (XO (XO (XI (XO (XI (XO (XI (XO (XI (XI (XI (XO (XI (XO (XI (XI (XO (XO
-    (XO (XO (XI (XO (XI (XO (XO (XO (XI (XO
-    XH))))))))))))))))))))))))))))))) :: ((Zpos (XO (XI (XI (XI (XI (XO (XO
-    (XI (XI (XI (XO (XI (XI (XI (XO (XO (XI (XO (XI (XI (XI (XO (XO (XO (XI
-    (XO (XI (XO (XO XH)))))))))))))))))))))))))))))) :: ((Zpos (XI (XO (XO
-    (XI (XO (XI (XO (XO (XO (XI (XI (XO (XO (XI (XO (XO (XO (XO (XI (XI (XI
-    (XO (XI (XI (XI (XO (XO (XO (XO
-    XH)))))))))))))))))))))))))))))) :: ((Zpos (XO (XO (XO (XO (XI (XI (XI
-    (XI (XO (XO (XO (XO (XO (XO (XO (XO (XI (XI (XI (XI (XI (XO (XO (XI (XO
-    (XO (XI (XI (XO XH)))))))))))))))))))))))))))))) :: ((Zpos (XI (XI (XI
-    (XO (XO (XO (XI (XO (XI (XO (XI (XI (XI (XO (XO (XO (XO (XI (XI (XI (XI
-    (XO (XI (XO (XO (XO (XO (XI (XO
-    XH)))))))))))))))))))))))))))))) :: ((Zpos (XO (XI (XO (XO (XO (XO (XI
-    (XO (XI (XO (XI (XI (XO (XO (XI (XO (XI (XO (XO (XI (XI (XO (XO (XO (XO
-    (XI (XI (XO (XI XH)))))))))))))))))))))))))))))) :: ((Zpos (XI (XO (XI
-    (XO (XI (XI (XI (XI (XO (XO (XO (XO (XI (XO (XI (XO (XO (XO (XO (XI (XI
-    (XO (XI (XI (XO (XI (XO (XO (XI
-    XH)))))))))))))))))))))))))))))) :: ((Zpos (XO (XO (XI (XI (XO (XI (XO
-    (XO (XO (XI (XI (XO (XI (XI (XI (XO (XI (XI (XO (XI (XI (XO (XO (XI (XI
-    (XI (XI (XI (XI XH)))))))))))))))))))))))))))))) :: ((Zpos (XI (XI (XO
-    (XI (XI (XO (XO (XI (XI (XI (XO (XI (XO (XI (XI (XO (XO (XI (XO (XI (XI
-    (XO (XI (XO (XI (XI (XO (XI (XI
-    XH)))))))))))))))))))))))))))))) :: ((Zpos (XO (XI (XI (XO (XO (XI (XO
-    (XO (XO (XI (XI (XO (XI (XO (XI (XI (XI (XO (XI (XO (XI (XO (XO (XO (XI
-    XH)))))))))))))))))))))))))) :: ((Zpos (XI (XO (XO (XO (XI (XO (XO (XI
-    (XI (XI (XO (XI (XO (XO (XI (XI (XO (XO (XI (XO (XI (XO (XI (XI (XI (XI
-    XH))))))))))))))))))))))))))) :: ((Zpos (XO (XO (XO (XI (XO (XO (XI (XO
-    (XI (XO (XI (XI (XO (XI (XI (XI (XI (XI (XI (XO (XI (XO (XO (XI (XO (XI
-    (XO XH)))))))))))))))))))))))))))) :: ((Zpos (XI (XI (XI (XI (XI (XI (XI
-    (XI (XO (XO (XO (XO (XI (XI (XI (XI (XO (XI (XI (XO (XI (XO (XI (XO (XO
-    (XI (XI XH)))))))))))))))))))))))))))) :: ((Zpos (XO (XI (XO (XI (XI (XI
-    (XI (XI (XO (XO (XO (XO (XO (XI (XO (XI (XI (XO (XO (XO (XI (XO (XO (XO
-    (XO (XO (XO (XO XH))))))))))))))))))))))))))))) :: ((Zpos (XI (XO (XI (XI
-    (XO (XO (XI (XO (XI (XO (XI (XI (XI (XI (XO (XI (XO (XO (XO (XO (XI (XO
-    (XI (XI (XO (XO (XI (XO XH))))))))))))))))))))))))))))) :: ((Zpos (XO (XO
-    (XI (XO (XI (XO (XO (XI (XI (XI (XO (XI (XI (XO (XO (XI (XI (XI (XO (XO
-    (XI (XO (XO (XI (XI (XO (XO (XI XH))))))))))))))))))))))))))))) :: ((Zpos
-    (XI (XI (XO (XO (XO (XI (XO (XO (XO (XI (XI (XO (XO (XO (XO (XI (XO (XI
-    (XO (XO (XI (XO (XI (XO (XI (XO (XI (XI
-    XH))))))))))))))))))))))))))))) :: ((Zpos (XO (XI (XI (XI (XO (XO (XO (XO
-    (XO (XI (XI (XO (XI (XO (XI (XO (XI (XI (XI (XI (XO (XI (XO (XO (XI (XO
-    (XO (XO (XI (XI (XI XH)))))))))))))))))))))))))))))))) :: ((Zpos (XI (XO
-    (XO (XI (XI (XI (XO (XI (XI (XI (XO (XI (XO (XO (XI (XO (XO (XI (XI (XI
-    (XO (XI (XI (XI (XI (XO (XI (XO (XI (XI (XI
-    XH)))))))))))))))))))))))))))))))) :: ((Zpos (XO (XO (XO (XO (XO (XI (XI
-    (XO (XI (XO (XI (XI (XO (XI (XI (XO (XI (XO (XI (XI (XO (XI (XO (XI (XO
-    (XO (XO (XI (XI (XI (XI XH)))))))))))))))))))))))))))))))) :: ((Zpos (XI
-    (XI (XI (XO (XI (XO (XI (XI (XO (XO (XO (XO (XI (XI (XI (XO (XO (XO (XI
-    (XI (XO (XI (XI (XO (XO (XO (XI (XI (XI (XI (XI
-    XH)))))))))))))))))))))))))))))))) :: ((Zpos (XO (XI (XO (XO (XI (XO (XI
-    (XI (XO (XO (XO (XO (XO (XI (XO (XO (XI (XI (XO (XI (XO (XI (XO (XO (XO
-    (XI (XO (XO (XO (XI (XI XH)))))))))))))))))))))))))))))))) :: ((Zpos (XI
-    (XO (XI (XO (XO (XI (XI (XO (XI (XO (XI (XI (XI (XI (XO (XO (XO (XI (XO
-    (XI (XO (XI (XI (XI (XO (XI (XI (XO (XO (XI (XI
-    XH)))))))))))))))))))))))))))))))) :: ((Zpos (XO (XO (XI (XI (XI (XI (XO
-    (XI (XI (XI (XO (XI (XI (XO (XO (XO (XI (XO (XO (XI (XO (XI (XO (XI (XI
-    (XI (XO (XI (XO (XI (XI XH)))))))))))))))))))))))))))))))) :: ((Zpos (XI
-    (XI (XO (XI (XO (XO (XO (XO (XO (XI (XI (XO (XO (XO (XO (XO (XO (XO (XO
-    (XI (XO (XI (XI (XO (XI (XI (XI (XI (XO (XI (XI
-    XH)))))))))))))))))))))))))))))))) :: ((Zpos (XO (XI (XI (XO (XI (XI (XO
-    (XI (XI (XI (XO (XI (XI (XI (XO (XI (XI (XI (XI (XO (XO (XI (XO (XO (XI
-    (XI (XI (XO (XI (XO (XI XH)))))))))))))))))))))))))))))))) :: ((Zpos (XI
-    (XO (XO (XO (XO (XO (XO (XO (XO (XI (XI (XO (XO (XI (XO (XI (XO (XI (XI
-    (XO (XO (XI (XI (XI (XI (XI (XO (XO (XI (XO (XI
-    XH)))))))))))))))))))))))))))))))) :: ((Zpos (XO (XO (XO (XI (XI (XO (XI
-    (XI (XO (XO (XO (XO (XO (XO (XO (XI (XI (XO (XI (XO (XO (XI (XO (XI (XO
-    (XI (XI (XI (XI (XO (XI XH)))))))))))))))))))))))))))))))) :: ((Zpos (XI
-    (XI (XI (XI (XO (XI (XI (XO (XI (XO (XI (XI (XI (XO (XO (XI (XO (XO (XI
-    (XO (XO (XI (XI (XO (XO (XI (XO (XI (XI (XO (XI
-    XH)))))))))))))))))))))))))))))))) :: ((Zpos (XO (XI (XO (XI (XO (XI (XI
-    (XO (XI (XO (XI (XI (XO (XO (XI (XI (XI (XI (XO (XO (XO (XI (XO (XO (XO
-    (XO (XI (XO (XO (XO (XI XH)))))))))))))))))))))))))))))))) :: ((Zpos (XI
-    (XO (XI (XI (XI (XO (XI (XI (XO (XO (XO (XO (XI (XO (XI (XI (XO (XI (XO
-    (XO (XO (XI (XI (XI (XO (XO (XO (XO (XO (XO (XI
-    XH)))))))))))))))))))))))))))))))) :: ((Zpos (XO (XO (XI (XO (XO (XO (XO
-    (XO (XO (XI (XI (XO (XI (XI (XI (XI (XI (XO (XO (XO (XO (XI (XO (XI (XI
-    (XO (XI (XI (XO (XO (XI XH)))))))))))))))))))))))))))))))) :: ((Zpos (XI
-    (XI (XO (XO (XI (XI (XO (XI (XI (XI (XO (XI (XO (XI (XI (XI (XO (XO (XO
-    (XO (XO (XI (XI (XO (XI (XO (XO (XI (XO (XO (XI
-    XH)))))))))))))))))))))))))))))))) :: ((Zpos (XO (XI (XI (XI (XI (XI (XI
-    (XO (XI (XO (XI (XI (XO (XO (XO (XI (XO (XI (XI (XI (XI (XI (XO (XO (XI
-    (XO (XI (XI (XI (XI (XO XH)))))))))))))))))))))))))))))))) :: ((Zpos (XI
-    (XO (XO (XI (XO (XO (XI (XI (XO (XO (XO (XO (XI (XO (XO (XI (XI (XI (XI
-    (XI (XI (XI (XI (XI (XI (XO (XO (XI (XI (XI (XO
-    XH)))))))))))))))))))))))))))))))) :: ((Zpos (XO (XO (XO (XO (XI (XO (XO
-    (XO (XO (XI (XI (XO (XI (XI (XO (XI (XO (XO (XI (XI (XI (XI (XO (XI (XO
-    (XO (XI (XO (XI (XI (XO XH)))))))))))))))))))))))))))))))) :: ((Zpos (XI
-    (XI (XI (XO (XO (XI (XO (XI (XI (XI (XO (XI (XO (XI (XO (XI (XI (XO (XI
-    (XI (XI (XI (XI (XO (XO (XO (XO (XO (XI (XI (XO
-    XH)))))))))))))))))))))))))))))))) :: ((Zpos (XO (XI (XO (XO (XO (XI (XO
-    (XI (XI (XI (XO (XI (XI (XI (XI (XI (XO (XI (XO (XI (XI (XI (XO (XO (XO
-    (XI (XI (XI (XO (XI (XO XH)))))))))))))))))))))))))))))))) :: ((Zpos (XI
-    (XO (XI (XO (XI (XO (XO (XO (XO (XI (XI (XO (XO (XI (XI (XI (XI (XI (XO
-    (XI (XI (XI (XI (XI (XO (XI (XO (XI (XO (XI (XO
-    XH)))))))))))))))))))))))))))))))) :: ((Zpos (XO (XO (XI (XI (XO (XO (XI
-    (XI (XO (XO (XO (XO (XO (XO (XI (XI (XO (XO (XO (XI (XI (XI (XO (XI (XI
-    (XI (XI (XO (XO (XI (XO XH)))))))))))))))))))))))))))))))) :: ((Zpos (XI
-    (XI (XO (XI (XI (XI (XI (XO (XI (XO (XI (XI (XI (XO (XI (XI (XI (XO (XO
-    (XI (XI (XI (XI (XO (XI (XI (XO (XO (XO (XI (XO
-    XH)))))))))))))))))))))))))))))))) :: ((Zpos (XO (XI (XI (XO (XO (XO (XI
-    (XI (XO (XO (XO (XO (XO (XI (XI (XO (XO (XI (XI (XO (XI (XI (XO (XO (XI
-    (XI (XO (XI (XI (XO (XO XH)))))))))))))))))))))))))))))))) :: ((Zpos (XI
-    (XO (XO (XO (XI (XI (XI (XO (XI (XO (XI (XI (XI (XI (XI (XO (XI (XI (XI
-    (XO (XI (XI (XI (XI (XI (XI (XI (XI (XI (XO (XO
-    XH)))))))))))))))))))))))))))))))) :: ((Zpos (XO (XO (XO (XI (XO (XI (XO
-    (XI (XI (XI (XO (XI (XI (XO (XI (XO (XO (XO (XI (XO (XI (XI (XO (XI (XO
-    (XI (XO (XO (XI (XO (XO XH)))))))))))))))))))))))))))))))) :: ((Zpos (XI
-    (XI (XI (XI (XI (XO (XO (XO (XO (XI (XI (XO (XO (XO (XI (XO (XI (XO (XI
-    (XO (XI (XI (XI (XO (XO (XI (XI (XO (XI (XO (XO
-    XH)))))))))))))))))))))))))))))))) :: ((Zpos (XO (XI (XO (XI (XI (XO (XO
-    (XO (XO (XI (XI (XO (XI (XO (XO (XO (XO (XI (XO (XO (XI (XI (XO (XO (XO
-    (XO (XO (XI (XO (XO (XO XH)))))))))))))))))))))))))))))))) :: ((Zpos (XI
-    (XO (XI (XI (XO (XI (XO (XI (XI (XI (XO (XI (XO (XO (XO (XO (XI (XI (XO
-    (XO (XI (XI (XI (XI (XO (XO (XI (XI (XO (XO (XO
-    XH)))))))))))))))))))))))))))))))) :: ((Zpos (XO (XO (XI (XO (XI (XI (XI
-    (XO (XI (XO (XI (XI (XO (XI (XO (XO (XO (XO (XO (XO (XI (XI (XO (XI (XI
-    (XO (XO (XO (XO (XO (XO XH)))))))))))))))))))))))))))))))) :: ((Zpos (XI
-    (XI (XO (XO (XO (XO (XI (XI (XO (XO (XO (XO (XI (XI (XO (XO (XI (XO (XO
-    (XO (XI (XI (XI (XO (XI (XO (XI (XO (XO (XO (XO
-    XH)))))))))))))))))))))))))))))))) :: ((Zpos (XI (XO (XO (XI (XI (XO (XO
-    (XI (XO (XO (XO (XO (XI (XO (XO (XI (XO (XI (XO (XI (XO (XO (XO (XI (XI
-    (XO (XI (XI (XI (XO XH))))))))))))))))))))))))))))))) :: ((Zpos (XO (XI
-    (XI (XI (XO (XI (XO (XO (XI (XO (XI (XI (XO (XO (XO (XI (XI (XI (XO (XI
-    (XO (XO (XI (XO (XI (XO (XO (XI (XI (XO
-    XH))))))))))))))))))))))))))))))) :: ((Zpos (XI (XI (XI (XO (XI (XI (XI
-    (XI (XI (XI (XO (XI (XO (XI (XO (XI (XO (XO (XO (XI (XO (XO (XO (XO (XO
-    (XO (XI (XO (XI (XO XH))))))))))))))))))))))))))))))) :: ((Zpos (XO (XO
-    (XO (XO (XO (XO (XI (XO (XO (XI (XI (XO (XI (XI (XO (XI (XI (XO (XO (XI
-    (XO (XO (XI (XI (XO (XO (XO (XO (XI (XO
-    XH))))))))))))))))))))))))))))))) :: ((Zpos (XI (XO (XI (XO (XO (XO (XI
-    (XO (XO (XI (XI (XO (XO (XI (XI (XI (XO (XI (XI (XI (XO (XO (XO (XI (XO
-    (XI (XI (XI (XO (XO XH))))))))))))))))))))))))))))))) :: ((Zpos (XO (XI
-    (XO (XO (XI (XI (XI (XI (XI (XI (XO (XI (XI (XI (XI (XI (XI (XI (XI (XI
-    (XO (XO (XI (XO (XO (XI (XO (XI (XO (XO
-    XH))))))))))))))))))))))))))))))) :: ((Zpos (XI (XI (XO (XI (XO (XI (XO
-    (XO (XI (XO (XI (XI (XI (XO (XI (XI (XO (XO (XI (XI (XO (XO (XO (XO (XI
-    (XI (XI (XO (XO (XO XH))))))))))))))))))))))))))))))) :: ((Zpos (XO (XO
-    (XI (XI (XI (XO (XO (XI (XO (XO (XO (XO (XO (XO (XI (XI (XI (XO (XI (XI
-    (XO (XO (XI (XI (XI (XI (XO (XO (XO (XO
-    XH))))))))))))))))))))))))))))))) :: ((Zpos (XI (XO (XO (XO (XO (XI (XO
-    (XO (XI (XO (XI (XI (XI (XI (XI (XO (XO (XI (XO (XO (XO (XO (XO (XI (XI
-    (XI (XO (XI (XI (XI XH))))))))))))))))))))))))))))))) :: ((Zpos (XO (XI
-    (XI (XO (XI (XO (XO (XI (XO (XO (XO (XO (XO (XI (XI (XO (XI (XI (XO (XO
-    (XO (XO (XI (XO (XI (XI (XI (XI (XI (XI
-    XH))))))))))))))))))))))))))))))) :: ((Zpos (XI (XI (XI (XI (XO (XO (XI
-    (XO (XO (XI (XI (XO (XO (XO (XI (XO (XO (XO (XO (XO (XO (XO (XO (XO (XO
-    (XI (XO (XO (XI (XI XH))))))))))))))))))))))))))))))) :: ((Zpos (XO (XO
-    (XO (XI (XI (XI (XI (XI (XI (XI (XO (XI (XI (XO (XI (XO (XI (XO (XO (XO
-    (XO (XO (XI (XI (XO (XI (XI (XO (XI (XI
-    XH))))))))))))))))))))))))))))))) :: ((Zpos (XI (XO (XI (XI (XI (XI (XI
-    (XI (XI (XI (XO (XI (XO (XO (XO (XO (XO (XI (XI (XO (XO (XO (XO (XI (XO
-    (XO (XO (XI (XO (XI XH))))))))))))))))))))))))))))))) :: ((Zpos (XO (XI
-    (XO (XI (XO (XO (XI (XO (XO (XI (XI (XO (XI (XO (XO (XO (XI (XI (XI (XO
-    (XO (XO (XI (XO (XO (XO (XI (XI (XO (XI
-    XH))))))))))))))))))))))))))))))) :: ((Zpos (XI (XI (XO (XO (XI (XO (XO
-    (XI (XO (XO (XO (XO (XI (XI (XO (XO (XO (XO (XI (XO (XO (XO (XO (XO (XI
-    (XO (XO (XO (XO (XI XH))))))))))))))))))))))))))))))) :: ((Zpos (XO (XO
-    (XI (XO (XO (XI (XO (XO (XI (XO (XI (XI (XO (XI (XO (XO (XI (XO (XI (XO
-    (XO (XO (XI (XI (XI (XO (XI (XO (XO (XI
-    XH))))))))))))))))))))))))))))))) :: ((Zpos (XI (XO (XO (XI (XO (XI (XI
-    (XI (XI (XI (XO (XI (XO (XO (XI (XO (XI (XI (XO (XI (XI (XO (XO (XI (XI
-    (XO (XO (XO XH))))))))))))))))))))))))))))) :: ((Zpos (XO (XI (XI (XI (XI
-    (XO (XI (XO (XO (XI (XI (XO (XI (XO (XI (XO (XO (XI (XO (XI (XI (XO (XI
-    (XO (XI (XO (XI (XO XH))))))))))))))))))))))))))))) :: ((Zpos (XI (XI (XI
-    (XO (XO (XO (XO (XI (XO (XO (XO (XO (XI (XI (XI (XO (XI (XO (XO (XI (XI
-    (XO (XO (XO (XO (XO (XO (XI XH))))))))))))))))))))))))))))) :: ((Zpos (XO
-    (XO (XO (XO (XI (XI (XO (XO (XI (XO (XI (XI (XO (XI (XI (XO (XO (XO (XO
-    (XI (XI (XO (XI (XI (XO (XO (XI (XI
-    XH))))))))))))))))))))))))))))) :: ((Zpos (XI (XO (XI (XO (XI (XI (XO (XO
-    (XI (XO (XI (XI (XI (XI (XO (XO (XI (XI (XI (XI (XI (XO (XO (XI (XO
-    XH)))))))))))))))))))))))))) :: ((Zpos (XO (XI (XO (XO (XO (XO (XO (XI
-    (XO (XO (XO (XO (XO (XI (XO (XO (XO (XI (XI (XI (XI (XO (XI (XO (XO (XI
-    XH))))))))))))))))))))))))))) :: ((Zpos (XI (XI (XO (XI (XI (XO (XI (XO
-    (XO (XI (XI (XO (XO (XO (XO (XO (XI (XO (XI (XI (XI (XO (XO (XO (XI (XI
-    (XO XH)))))))))))))))))))))))))))) :: ((Zpos (XO (XO (XI (XI (XO (XI (XI
-    (XI (XI (XI (XO (XI (XI (XO (XO (XO (XO (XO (XI (XI (XI (XO (XI (XI (XI
-    (XI (XI XH)))))))))))))))))))))))))))) :: ((Zpos (XI (XO (XO (XO (XI (XO
-    (XI (XO (XO (XI (XI (XO (XO (XI (XO (XI (XI (XI (XO (XO (XI (XO (XO (XI
-    (XI (XI (XI (XO (XI XH)))))))))))))))))))))))))))))) :: ((Zpos (XO (XI
-    (XI (XO (XO (XI (XI (XI (XI (XI (XO (XI (XI (XI (XO (XI (XO (XI (XO (XO
-    (XI (XO (XI (XO (XI (XI (XO (XO (XI
-    XH)))))))))))))))))))))))))))))) :: ((Zpos (XI (XI (XI (XI (XI (XI (XO
-    (XO (XI (XO (XI (XI (XI (XO (XO (XI (XI (XO (XO (XO (XI (XO (XO (XO (XO
-    (XI (XI (XI (XI XH)))))))))))))))))))))))))))))) :: ((Zpos (XO (XO (XO
-    (XI (XO (XO (XO (XI (XO (XO (XO (XO (XO (XO (XO (XI (XO (XO (XO (XO (XI
-    (XO (XI (XI (XO (XI (XO (XI (XI
-    XH)))))))))))))))))))))))))))))) :: ((Zpos (XI (XO (XI (XI (XO (XO (XO
-    (XI (XO (XO (XO (XO (XI (XO (XI (XI (XI (XI (XI (XO (XI (XO (XO (XI (XO
-    (XO (XI (XO (XO XH)))))))))))))))))))))))))))))) :: ((Zpos (XO (XI (XO
-    (XI (XI (XI (XO (XO (XI (XO (XI (XI (XO (XO (XI (XI (XO (XI (XI (XO (XI
-    (XO (XI (XO (XO (XO (XO (XO (XO
-    XH)))))))))))))))))))))))))))))) :: ((Zpos (XI (XI (XO (XO (XO (XI (XI
-    (XI (XI (XI (XO (XI (XO (XI (XI (XI (XI (XO (XI (XO (XI (XO (XO (XO (XI
-    (XO (XI (XI (XO XH)))))))))))))))))))))))))))))) :: ((Zpos (XO (XO (XI
-    (XO (XI (XO (XI (XO (XO (XI (XI (XO (XI (XI (XI (XI (XO (XO (XI (XO (XI
-    (XO (XI (XI (XI (XO (XO (XI (XO
-    XH)))))))))))))))))))))))))))))) :: ((Zpos (XI (XO (XO (XI (XI (XI (XI
-    (XO (XO (XI (XI (XO (XO (XI (XO (XO (XI (XO (XO (XI (XO (XI (XO (XI (XI
-    (XO (XI (XO (XO (XO (XI XH)))))))))))))))))))))))))))))))) :: ((Zpos (XO
-    (XI (XI (XI (XO (XO (XI (XI (XI (XI (XO (XI (XI (XI (XO (XO (XO (XO (XO
-    (XI (XO (XI (XI (XO (XI (XO (XO (XO (XO (XO (XI
-    XH)))))))))))))))))))))))))))))))) :: ((Zpos (XI (XI (XI (XO (XI (XO (XO
-    (XO (XI (XO (XI (XI (XI (XO (XO (XO (XI (XI (XO (XI (XO (XI (XO (XO (XO
-    (XO (XI (XI (XO (XO (XI XH)))))))))))))))))))))))))))))))) :: ((Zpos (XO
-    (XO (XO (XO (XO (XI (XO (XI (XO (XO (XO (XO (XO (XO (XO (XO (XO (XI (XO
-    (XI (XO (XI (XI (XI (XO (XO (XO (XI (XO (XO (XI
-    XH)))))))))))))))))))))))))))))))) :: ((Zpos (XI (XO (XI (XO (XO (XI (XO
-    (XI (XO (XO (XO (XO (XI (XO (XI (XO (XI (XO (XI (XI (XO (XI (XO (XI (XO
-    (XI (XI (XO (XI (XO (XI XH)))))))))))))))))))))))))))))))) :: ((Zpos (XO
-    (XI (XO (XO (XI (XO (XO (XO (XI (XO (XI (XI (XO (XO (XI (XO (XO (XO (XI
-    (XI (XO (XI (XI (XO (XO (XI (XO (XO (XI (XO (XI
-    XH)))))))))))))))))))))))))))))))) :: ((Zpos (XI (XI (XO (XI (XO (XO (XI
-    (XI (XI (XI (XO (XI (XO (XI (XI (XO (XI (XI (XI (XI (XO (XI (XO (XO (XI
-    (XI (XI (XI (XI (XO (XI XH)))))))))))))))))))))))))))))))) :: ((Zpos (XO
-    (XO (XI (XI (XI (XI (XI (XO (XO (XI (XI (XO (XI (XI (XI (XO (XO (XI (XI
-    (XI (XO (XI (XI (XI (XI (XI (XO (XI (XI (XO (XI
-    XH)))))))))))))))))))))))))))))))) :: ((Zpos (XI (XO (XO (XO (XO (XO (XI
-    (XI (XI (XI (XO (XI (XO (XO (XI (XI (XI (XO (XO (XO (XO (XI (XO (XI (XI
-    (XI (XO (XO (XO (XI (XI XH)))))))))))))))))))))))))))))))) :: ((Zpos (XO
-    (XI (XI (XO (XI (XI (XI (XO (XO (XI (XI (XO (XI (XO (XI (XI (XO (XO (XO
-    (XO (XO (XI (XI (XO (XI (XI (XI (XO (XO (XI (XI
-    XH)))))))))))))))))))))))))))))))) :: ((Zpos (XI (XI (XI (XI (XO (XI (XO
-    (XI (XO (XO (XO (XO (XI (XI (XI (XI (XI (XI (XO (XO (XO (XI (XO (XO (XO
-    (XI (XO (XI (XO (XI (XI XH)))))))))))))))))))))))))))))))) :: ((Zpos (XO
-    (XO (XO (XI (XI (XO (XO (XO (XI (XO (XI (XI (XO (XI (XI (XI (XO (XI (XO
-    (XO (XO (XI (XI (XI (XO (XI (XI (XI (XO (XI (XI
-    XH)))))))))))))))))))))))))))))))) :: ((Zpos (XI (XO (XI (XI (XI (XO (XO
-    (XO (XI (XO (XI (XI (XI (XI (XO (XI (XI (XO (XI (XO (XO (XI (XO (XI (XO
-    (XO (XO (XO (XI (XI (XI XH)))))))))))))))))))))))))))))))) :: ((Zpos (XO
-    (XI (XO (XI (XO (XI (XO (XI (XO (XO (XO (XO (XO (XI (XO (XI (XO (XO (XI
-    (XO (XO (XI (XI (XO (XO (XO (XI (XO (XI (XI (XI
-    XH)))))))))))))))))))))))))))))))) :: ((Zpos (XI (XI (XO (XO (XI (XI (XI
-    (XO (XO (XI (XI (XO (XO (XO (XO (XI (XI (XI (XI (XO (XO (XI (XO (XO (XI
-    (XO (XO (XI (XI (XI (XI XH)))))))))))))))))))))))))))))))) :: ((Zpos (XO
-    (XO (XI (XO (XO (XO (XI (XI (XI (XI (XO (XI (XI (XO (XO (XI (XO (XI (XI
-    (XO (XO (XI (XI (XI (XI (XO (XI (XI (XI (XI (XI
-    XH)))))))))))))))))))))))))))))))) :: ((Zpos (XI (XO (XO (XI (XO (XO (XO
-    (XO (XI (XO (XI (XI (XI (XI (XI (XI (XO (XO (XO (XI (XI (XI (XO (XI (XI
-    (XO (XO (XI (XO (XO (XO XH)))))))))))))))))))))))))))))))) :: ((Zpos (XO
-    (XI (XI (XI (XI (XI (XO (XI (XO (XO (XO (XO (XO (XI (XI (XI (XI (XO (XO
-    (XI (XI (XI (XI (XO (XI (XO (XI (XI (XO (XO (XO
-    XH)))))))))))))))))))))))))))))))) :: ((Zpos (XI (XI (XI (XO (XO (XI (XI
-    (XO (XO (XI (XI (XO (XO (XO (XI (XI (XO (XI (XO (XI (XI (XI (XO (XO (XO
-    (XO (XO (XO (XO (XO (XO XH)))))))))))))))))))))))))))))))) :: ((Zpos (XO
-    (XO (XO (XO (XI (XO (XI (XI (XI (XI (XO (XI (XI (XO (XI (XI (XI (XI (XO
-    (XI (XI (XI (XI (XI (XO (XO (XI (XO (XO (XO (XO
-    XH)))))))))))))))))))))))))))))))) :: ((Zpos (XI (XO (XI (XO (XI (XO (XI
-    (XI (XI (XI (XO (XI (XO (XO (XO (XI (XO (XO (XI (XI (XI (XI (XO (XI (XO
-    (XI (XO (XI (XI (XO (XO XH)))))))))))))))))))))))))))))))) :: ((Zpos (XO
-    (XI (XO (XO (XO (XI (XI (XO (XO (XI (XI (XO (XI (XO (XO (XI (XI (XO (XI
-    (XI (XI (XI (XI (XO (XO (XI (XI (XI (XI (XO (XO
-    XH)))))))))))))))))))))))))))))))) :: ((Zpos (XI (XI (XO (XI (XI (XI (XO
-    (XI (XO (XO (XO (XO (XI (XI (XO (XI (XO (XI (XI (XI (XI (XI (XO (XO (XI
-    (XI (XO (XO (XI (XO (XO XH)))))))))))))))))))))))))))))))) :: ((Zpos (XO
-    (XO (XI (XI (XO (XO (XO (XO (XI (XO (XI (XI (XO (XI (XO (XI (XI (XI (XI
-    (XI (XI (XI (XI (XI (XI (XI (XI (XO (XI (XO (XO
-    XH)))))))))))))))))))))))))))))))) :: ((Zpos (XI (XO (XO (XO (XI (XI (XO
-    (XI (XO (XO (XO (XO (XI (XO (XO (XO (XO (XO (XO (XO (XI (XI (XO (XI (XI
-    (XI (XI (XI (XO (XI (XO XH)))))))))))))))))))))))))))))))) :: ((Zpos (XO
-    (XI (XI (XO (XO (XO (XO (XO (XI (XO (XI (XI (XO (XO (XO (XO (XI (XO (XO
-    (XO (XI (XI (XI (XO (XI (XI (XO (XI (XO (XI (XO
-    XH)))))))))))))))))))))))))))))))) :: ((Zpos (XI (XI (XI (XI (XI (XO (XI
-    (XI (XI (XI (XO (XI (XO (XI (XO (XO (XO (XI (XO (XO (XI (XI (XO (XO (XO
-    (XI (XI (XO (XO (XI (XO XH)))))))))))))))))))))))))))))))) :: ((Zpos (XO
-    (XO (XO (XI (XO (XI (XI (XO (XO (XI (XI (XO (XI (XI (XO (XO (XI (XI (XO
-    (XO (XI (XI (XI (XI (XO (XI (XO (XO (XO (XI (XO
-    XH)))))))))))))))))))))))))))))))) :: ((Zpos (XI (XO (XI (XI (XO (XI (XI
-    (XO (XO (XI (XI (XO (XO (XI (XI (XO (XO (XO (XI (XO (XI (XI (XO (XI (XO
-    (XO (XI (XI (XI (XI (XO XH)))))))))))))))))))))))))))))))) :: ((Zpos (XO
-    (XI (XO (XI (XI (XO (XI (XI (XI (XI (XO (XI (XI (XI (XI (XO (XI (XO (XI
-    (XO (XI (XI (XI (XO (XO (XO (XO (XI (XI (XI (XO
-    XH)))))))))))))))))))))))))))))))) :: ((Zpos (XI (XI (XO (XO (XO (XO (XO
-    (XO (XI (XO (XI (XI (XI (XO (XI (XO (XO (XI (XI (XO (XI (XI (XO (XO (XI
-    (XO (XI (XO (XI (XI (XO XH)))))))))))))))))))))))))))))))) :: ((Zpos (XO
-    (XO (XI (XO (XI (XI (XO (XI (XO (XO (XO (XO (XO (XO (XI (XO (XI (XI (XI
-    (XO (XI (XI (XI (XI (XI (XO (XO (XO (XI (XI (XO
-    XH)))))))))))))))))))))))))))))))) :: [])))))))))))))))))))))))))))))))))))))))))))))))))))))))))))))))))))))))))))))))))))))))))))))))))))))))))))))))))))))))))))))))))))))))))))))))))))))))))))))))))))))))))))))))))))))))))))))))))))))))))))))))))))))))))))))))))))))))))))))))))))))))))))))))
-
-(** val wAL_PAGE_SIZE : z **)
-
-let wAL_PAGE_SIZE =
-  Zpos (XO (XO (XO (XO (XO (XO (XO (XO (XO (XO (XO (XO XH))))))))))))
-
-(** val wAL_IWFSM_MAGICK : z **)
-
-let wAL_IWFSM_MAGICK =
-  Zpos (XO (XO (XI (XI (XO (XO (XI (XI (XI (XI (XI (XO (XO (XO (XI (XI (XO
-    (XO (XI (XI (XI (XO (XO (XI XH))))))))))))))))))))))))
-
-(** val bKP_WAL_CLEANUP : z **)
-
-let bKP_WAL_CLEANUP =
-  Zpos (XO XH)
-
-(** val bKP_MAIN_COPY : z **)
-
-let bKP_MAIN_COPY =
-  Zpos (XI XH)
-
-(** val wAL_SCAN_SP_CHECKS_AVAIL : z **)
-
-let wAL_SCAN_SP_CHECKS_AVAIL =
-  Zpos XH
-
-(** val wAL_REPLAY_REBASES_FPOS : z **)
-
-let wAL_REPLAY_REBASES_FPOS =
-  Zpos XH
+(** val set_vnum_loop : nat -> z -> z list **)
+
+let rec set_vnum_loop fuel num =
+  match fuel with
+  | O -> []
+  | S f ->
+    if Z.leb num Z0
+    then []
+    else let rem = Z.modulo num (Zpos (XO (XO (XO (XO (XO (XO (XO XH))))))))
+         in
+         let num' = Z.div num (Zpos (XO (XO (XO (XO (XO (XO (XO XH)))))))) in
+         if Z.ltb Z0 num'
+         then (Z.sub (Zpos (XI (XI (XI (XI (XI (XI (XI XH)))))))) rem) :: 
+                (set_vnum_loop f num')
+         else rem :: []
+
+(** val set_vnum64 : z -> z list **)
+
+let set_vnum64 v =
+  let num = sw (Zpos (XO (XO (XO (XO (XO (XO XH))))))) v in
+  if Z.eqb num Z0
+  then Z0 :: []
+  else set_vnum_loop (S (S (S (S (S (S (S (S (S (S O)))))))))) num
+
+(** val set_vnum32 : z -> z list **)
+
+let set_vnum32 v =
+  let num = sw (Zpos (XO (XO (XO (XO (XO XH)))))) v in
+  if Z.eqb num Z0 then Z0 :: [] else set_vnum_loop (S (S (S (S (S O))))) num
+
+(** val read_vnum_loop : z list -> z -> z -> nat -> (z * nat) option **)
+
+let rec read_vnum_loop buf base acc i =
+  match buf with
+  | [] -> None
+  | b :: rest ->
+    if Z.ltb b (Zpos (XO (XO (XO (XO (XO (XO (XO XH))))))))
+    then Some ((Z.add acc (Z.mul base b)), (S i))
+    else read_vnum_loop rest
+           (Z.mul base (Zpos (XO (XO (XO (XO (XO (XO (XO XH)))))))))
+           (Z.add acc
+             (Z.mul base
+               (Z.sub (Zpos (XI (XI (XI (XI (XI (XI (XI XH)))))))) b))) (S i)
+
+(** val read_vnum : z list -> (z * nat) option **)
+
+let read_vnum buf =
+  read_vnum_loop buf (Zpos XH) Z0 O
+
+(** val iWNUMBUF_SIZE : z **)
+
+let iWNUMBUF_SIZE =
+  Zpos (XO (XO (XO (XO (XO XH)))))
+
+(** val ascii2hex_tbl : z list **)
+
+let ascii2hex_tbl =
+  Z0 :: (Z0 :: (Z0 :: (Z0 :: (Z0 :: (Z0 :: (Z0 :: (Z0 :: (Z0 :: (Z0 :: (Z0 :: (Z0 :: (Z0 :: (Z0 :: (Z0 :: (Z0 :: (Z0 :: (Z0 :: (Z0 :: (Z0 :: (Z0 :: (Z0 :: (Z0 :: (Z0 :: (Z0 :: (Z0 :: (Z0 :: (Z0 :: (Z0 :: (Z0 :: (Z0 :: (Z0 :: (Z0 :: (Z0 :: (Z0 :: (Z0 :: (Z0 :: (Z0 :: (Z0 :: (Z0 :: (Z0 :: (Z0 :: (Z0 :: (Z0 :: (Z0 :: (Z0 :: (Z0 :: (Z0 :: (Z0 :: ((Zpos
+    XH) :: ((Zpos (XO XH)) :: ((Zpos (XI XH)) :: ((Zpos (XO (XO
+    XH))) :: ((Zpos (XI (XO XH))) :: ((Zpos (XO (XI XH))) :: ((Zpos (XI (XI
+    XH))) :: ((Zpos (XO (XO (XO XH)))) :: ((Zpos (XI (XO (XO
+    XH)))) :: (Z0 :: (Z0 :: (Z0 :: (Z0 :: (Z0 :: (Z0 :: (Z0 :: ((Zpos (XO (XI
+    (XO XH)))) :: ((Zpos (XI (XI (XO XH)))) :: ((Zpos (XO (XO (XI
+    XH)))) :: ((Zpos (XI (XO (XI XH)))) :: ((Zpos (XO (XI (XI
+    XH)))) :: ((Zpos (XI (XI (XI
+    XH)))) :: (Z0 :: (Z0 :: (Z0 :: (Z0 :: (Z0 :: (Z0 :: (Z0 :: (Z0 :: (Z0 :: (Z0 :: (Z0 :: (Z0 :: (Z0 :: (Z0 :: (Z0 :: (Z0 :: (Z0 :: (Z0 :: (Z0 :: (Z0 :: (Z0 :: (Z0 :: (Z0 :: (Z0 :: (Z0 :: (Z0 :: ((Zpos
+    (XO (XI (XO XH)))) :: ((Zpos (XI (XI (XO XH)))) :: ((Zpos (XO (XO (XI
+    XH)))) :: ((Zpos (XI (XO (XI XH)))) :: ((Zpos (XO (XI (XI
+    XH)))) :: ((Zpos (XI (XI (XI
+    XH)))) :: (Z0 :: (Z0 :: (Z0 :: (Z0 :: (Z0 :: (Z0 :: (Z0 :: (Z0 :: (Z0 :: (Z0 :: (Z0 :: (Z0 :: (Z0 :: (Z0 :: (Z0 :: (Z0 :: (Z0 :: (Z0 :: (Z0 :: (Z0 :: (Z0 :: (Z0 :: (Z0 :: (Z0 :: (Z0 :: (Z0 :: (Z0 :: (Z0 :: (Z0 :: (Z0 :: (Z0 :: (Z0 :: (Z0 :: (Z0 :: (Z0 :: (Z0 :: (Z0 :: (Z0 :: (Z0 :: (Z0 :: (Z0 :: (Z0 :: (Z0 :: (Z0 :: (Z0 :: (Z0 :: (Z0 :: (Z0 :: (Z0 :: (Z0 :: (Z0 :: (Z0 :: (Z0 :: (Z0 :: (Z0 :: (Z0 :: (Z0 :: (Z0 :: (Z0 :: (Z0 :: (Z0 :: (Z0 :: (Z0 :: (Z0 :: (Z0 :: (Z0 :: (Z0 :: (Z0 :: (Z0 :: (Z0 :: (Z0 :: (Z0 :: (Z0 :: (Z0 :: (Z0 :: (Z0 :: (Z0 :: (Z0 :: (Z0 :: (Z0 :: (Z0 :: (Z0 :: (Z0 :: (Z0 :: (Z0 :: (Z0 :: (Z0 :: (Z0 :: (Z0 :: (Z0 :: (Z0 :: (Z0 :: (Z0 :: (Z0 :: (Z0 :: (Z0 :: (Z0 :: (Z0 :: (Z0 :: (Z0 :: (Z0 :: (Z0 :: (Z0 :: (Z0 :: (Z0 :: (Z0 :: (Z0 :: (Z0 :: (Z0 :: (Z0 :: (Z0 :: (Z0 :: (Z0 :: (Z0 :: (Z0 :: (Z0 :: (Z0 :: (Z0 :: (Z0 :: (Z0 :: (Z0 :: (Z0 :: (Z0 :: (Z0 :: (Z0 :: (Z0 :: (Z0 :: (Z0 :: (Z0 :: (Z0 :: (Z0 :: (Z0 :: (Z0 :: (Z0 :: (Z0 :: (Z0 :: (Z0 :: (Z0 :: (Z0 :: (Z0 :: (Z0 :: (Z0 :: (Z0 :: (Z0 :: (Z0 :: (Z0 :: (Z0 :: (Z0 :: (Z0 :: (Z0 :: (Z0 :: (Z0 :: (Z0 :: [])))))))))))))))))))))))))))))))))))))))))))))))))))))))))))))))))))))))))))))))))))))))))))))))))))))))))))))))))))))))))))))))))))))))))))))))))))))))))))))))))))))))))))))))))))))))))))))))))))))))))))))))))))))))))))))))))))))))))))))))))))))))))))))))
+
+(** val pREFIX_KEY_LEN_V2 : z **)
+
+let pREFIX_KEY_LEN_V2 =
+  Zpos (XI (XI (XO (XO (XI (XI XH))))))
+
+(** val iW_VNUMBUFSZ : z **)
+
+let iW_VNUMBUFSZ =
+  Zpos (XO (XI (XO XH)))
+
+(** val iW_VNUMSIZE : z -> z **)
+
+let iW_VNUMSIZE n0 =
+  if Z.eqb
+       (if Z.ltb (uw (Zpos (XO (XO (XO (XO (XO (XO XH))))))) n0) (Zpos (XO
+             (XO (XO (XO (XO (XO (XO XH))))))))
+        then Zpos XH
+        else Z0) Z0
+  then if Z.eqb
+            (if Z.ltb (uw (Zpos (XO (XO (XO (XO (XO (XO XH))))))) n0) (Zpos
+                  (XO (XO (XO (XO (XO (XO (XO (XO (XO (XO (XO (XO (XO (XO
+                  XH)))))))))))))))
+             then Zpos XH
+             else Z0) Z0
+       then if Z.eqb
+                 (if Z.ltb (uw (Zpos (XO (XO (XO (XO (XO (XO XH))))))) n0)
+                       (Zpos (XO (XO (XO (XO (XO (XO (XO (XO (XO (XO (XO (XO
+                       (XO (XO (XO (XO (XO (XO (XO (XO (XO
+                       XH))))))))))))))))))))))
+                  then Zpos XH
+                  else Z0) Z0
+            then if Z.eqb
+                      (if Z.ltb
+                            (uw (Zpos (XO (XO (XO (XO (XO (XO XH))))))) n0)
+                            (Zpos (XO (XO (XO (XO (XO (XO (XO (XO (XO (XO (XO
+                            (XO (XO (XO (XO (XO (XO (XO (XO (XO (XO (XO (XO
+                            (XO (XO (XO (XO (XO
+                            XH)))))))))))))))))))))))))))))
+                       then Zpos XH
+                       else Z0) Z0
+                 then if Z.eqb
+                           (if Z.ltb
+                                 (uw (Zpos (XO (XO (XO (XO (XO (XO XH)))))))
+                                   n0) (Zpos (XO (XO (XO (XO (XO (XO (XO (XO
+                                 (XO (XO (XO (XO (XO (XO (XO (XO (XO (XO (XO
+                                 (XO (XO (XO (XO (XO (XO (XO (XO (XO (XO (XO
+                                 (XO (XO (XO (XO (XO
+                                 XH))))))))))))))))))))))))))))))))))))
+                            then Zpos XH
+                            else Z0) Z0
+                      then if Z.eqb
+                                (if Z.ltb
+                                      (uw (Zpos (XO (XO (XO (XO (XO (XO
+                                        XH))))))) n0) (Zpos (XO (XO (XO (XO
+                                      (XO (XO (XO (XO (XO (XO (XO (XO (XO (XO
+                                      (XO (XO (XO (XO (XO (XO (XO (XO (XO (XO
+                                      (XO (XO (XO (XO (XO (XO (XO (XO (XO (XO
+                                      (XO (XO (XO (XO (XO (XO (XO (XO
+                                      XH)))))))))))))))))))))))))))))))))))))))))))
+                                 then Zpos XH
+                                 else Z0) Z0
+                           then if Z.eqb
+                                     (if Z.ltb
+                                           (uw (Zpos (XO (XO (XO (XO (XO (XO
+                                             XH))))))) n0) (Zpos (XO (XO (XO
+                                           (XO (XO (XO (XO (XO (XO (XO (XO
+                                           (XO (XO (XO (XO (XO (XO (XO (XO
+                                           (XO (XO (XO (XO (XO (XO (XO (XO
+                                           (XO (XO (XO (XO (XO (XO (XO (XO
+                                           (XO (XO (XO (XO (XO (XO (XO (XO
+                                           (XO (XO (XO (XO (XO (XO
+                                           XH))))))))))))))))))))))))))))))))))))))))))))))))))
+                                      then Zpos XH
+                                      else Z0) Z0
+                                then if Z.eqb
+                                          (if Z.ltb
+                                                (uw (Zpos (XO (XO (XO (XO (XO
+                                                  (XO XH))))))) n0) (Zpos (XO
+                                                (XO (XO (XO (XO (XO (XO (XO
+                                                (XO (XO (XO (XO (XO (XO (XO
+                                                (XO (XO (XO (XO (XO (XO (XO
+                                                (XO (XO (XO (XO (XO (XO (XO
+                                                (XO (XO (XO (XO (XO (XO (XO
+                                                (XO (XO (XO (XO (XO (XO (XO
+                                                (XO (XO (XO (XO (XO (XO (XO
+                                                (XO (XO (XO (XO (XO (XO
+                                                XH)))))))))))))))))))))))))))))))))))))))))))))))))))))))))
+                                           then Zpos XH
+                                           else Z0) Z0
+                                     then if Z.eqb
+                                               (if Z.ltb
+                                                     (uw (Zpos (XO (XO (XO
+                                                       (XO (XO (XO XH)))))))
+                                                       n0) (Zpos (XO (XO (XO
+                                                     (XO (XO (XO (XO (XO (XO
+                                                     (XO (XO (XO (XO (XO (XO
+                                                     (XO (XO (XO (XO (XO (XO
+                                                     (XO (XO (XO (XO (XO (XO
+                                                     (XO (XO (XO (XO (XO (XO
+                                                     (XO (XO (XO (XO (XO (XO
+                                                     (XO (XO (XO (XO (XO (XO
+                                                     (XO (XO (XO (XO (XO (XO
+                                                     (XO (XO (XO (XO (XO (XO
+                                                     (XO (XO (XO (XO (XO (XO
+                                                     XH))))))))))))))))))))))))))))))))))))))))))))))))))))))))))))))))
+                                                then Zpos XH
+                                                else Z0) Z0
+                                          then Zpos (XO (XI (XO XH)))
+                                          else Zpos (XI (XO (XO XH)))
+                                     else Zpos (XO (XO (XO XH)))
+                                else Zpos (XI (XI XH))
+                           else Zpos (XO (XI XH))
+                      else Zpos (XI (XO XH))
+                 else Zpos (XO (XO XH))
+            else Zpos (XI XH)
+       else Zpos (XO XH)
+  else Zpos XH
+
+(** val iW_VNUMSIZE32 : z -> z **)
+
+let iW_VNUMSIZE32 n0 =
+  if Z.eqb
+       (if Z.ltb (uw (Zpos (XO (XO (XO (XO (XO (XO XH))))))) n0) (Zpos (XO
+             (XO (XO (XO (XO (XO (XO XH))))))))
+        then Zpos XH
+        else Z0) Z0
+  then if Z.eqb
+            (if Z.ltb (uw (Zpos (XO (XO (XO (XO (XO (XO XH))))))) n0) (Zpos
+                  (XO (XO (XO (XO (XO (XO (XO (XO (XO (XO (XO (XO (XO (XO
+                  XH)))))))))))))))
+             then Zpos XH
+             else Z0) Z0
+       then if Z.eqb
+                 (if Z.ltb (uw (Zpos (XO (XO (XO (XO (XO (XO XH))))))) n0)
+                       (Zpos (XO (XO (XO (XO (XO (XO (XO (XO (XO (XO (XO (XO
+                       (XO (XO (XO (XO (XO (XO (XO (XO (XO
+                       XH))))))))))))))))))))))
+                  then Zpos XH
+                  else Z0) Z0
+            then if Z.eqb
+                      (if Z.ltb
+                            (uw (Zpos (XO (XO (XO (XO (XO (XO XH))))))) n0)
+                            (Zpos (XO (XO (XO (XO (XO (XO (XO (XO (XO (XO (XO
+                            (XO (XO (XO (XO (XO (XO (XO (XO (XO (XO (XO (XO
+                            (XO (XO (XO (XO (XO
+                            XH)))))))))))))))))))))))))))))
+                       then Zpos XH
+                       else Z0) Z0
+                 then Zpos (XI (XO XH))
+                 else Zpos (XO (XO XH))
+            else Zpos (XI XH)
+       else Zpos (XO XH)
+  else Zpos XH
+
+(** val iW_RANGES_OVERLAP : z -> z -> z -> z -> z **)
+
+let iW_RANGES_OVERLAP s1 e1 s2 e2 =
+  if Z.eqb
+       (if Z.eqb
+             (if Z.eqb (if Z.gtb e1 s2 then Zpos XH else Z0) Z0
+              then Z0
+              else if Z.eqb (if Z.leb e1 e2 then Zpos XH else Z0) Z0
+                   then Z0
+                   else Zpos XH) Z0
+        then if Z.eqb
+                  (if Z.eqb (if Z.geb s1 s2 then Zpos XH else Z0) Z0
+                   then Z0
+                   else if Z.eqb (if Z.ltb s1 e2 then Zpos XH else Z0) Z0
+                        then Z0
+                        else Zpos XH) Z0
+             then Z0
+             else Zpos XH
+        else Zpos XH) Z0
+  then if Z.eqb
+            (if Z.eqb (if Z.leb s1 s2 then Zpos XH else Z0) Z0
+             then Z0
+             else if Z.eqb (if Z.geb e1 e2 then Zpos XH else Z0) Z0
+                  then Z0
+                  else Zpos XH) Z0
+       then Z0
+       else Zpos XH
+  else Zpos XH
 
 (** val iW_ROUNDUP : z -> z -> z **)
 
@@ -1533,973 +960,845 @@ let iW_ROUNDUP x v =
         (uw (Zpos (XO (XO (XO (XO (XO (XO XH)))))))
           (Z.sub v (uw (Zpos (XO (XO (XO (XO (XO (XO XH))))))) (Zpos XH))))))
 
-type bytes = z list
+(** val iW_ROUNDOWN : z -> z -> z **)
 
-(** val le_enc : nat -> z -> bytes **)
+let iW_ROUNDOWN x v =
+  uw (Zpos (XO (XO (XO (XO (XO (XO XH)))))))
+    (Z.sub x
+      (Z.coq_land x
+        (uw (Zpos (XO (XO (XO (XO (XO (XO XH)))))))
+          (Z.sub v (uw (Zpos (XO (XO (XO (XO (XO (XO XH))))))) (Zpos XH))))))
 
-let rec le_enc n0 v =
+type mem = { m_len : z; m_init : (z -> z); m_wr : (z * z) list }
+
+(** val rd_wr : (z * z) list -> (z -> z) -> z -> z **)
+
+let rec rd_wr w init i =
+  match w with
+  | [] -> init i
+  | p :: r -> let (j, x) = p in if Z.eqb j i then x else rd_wr r init i
+
+(** val inb : mem -> z -> bool **)
+
+let inb m i =
+  (&&) (Z.leb Z0 i) (Z.ltb i m.m_len)
+
+(** val rd : mem -> z -> z option **)
+
+let rd m i =
+  if inb m i then Some (rd_wr m.m_wr m.m_init i) else None
+
+(** val wr : mem -> z -> z -> mem option **)
+
+let wr m i x =
+  if inb m i
+  then Some { m_len = m.m_len; m_init = m.m_init; m_wr = ((i, x) :: m.m_wr) }
+  else None
+
+(** val peek : mem -> z -> z **)
+
+let peek m i =
+  rd_wr m.m_wr m.m_init i
+
+(** val shl1 : nat -> mem -> z -> mem option **)
+
+let rec shl1 n0 m dst =
   match n0 with
-  | O -> []
+  | O -> Some m
   | S k ->
-    (Z.modulo v (Zpos (XO (XO (XO (XO (XO (XO (XO (XO XH)))))))))) :: 
-      (le_enc k (Z.div v (Zpos (XO (XO (XO (XO (XO (XO (XO (XO XH)))))))))))
-
-(** val le_dec : bytes -> z **)
-
-let rec le_dec = function
-| [] -> Z0
-| b :: r ->
-  Z.add b (Z.mul (Zpos (XO (XO (XO (XO (XO (XO (XO (XO XH))))))))) (le_dec r))
-
-(** val rd : nat -> z -> bytes -> z **)
-
-let rd n0 off l =
-  le_dec (firstn n0 (skipn (Z.to_nat off) l))
-
-(** val rd_off : z -> bytes -> z **)
-
-let rd_off off l =
-  sw (Zpos (XO (XO (XO (XO (XO (XO XH)))))))
-    (rd (S (S (S (S (S (S (S (S O)))))))) off l)
-
-type rec0 =
-| RSep of z * z
-| RSet of z * z * z
-| RCopy of z * z * z
-| RWrite of z * z * bytes
-| RResize of z * z
-| RSavepoint of z
-| RReset
-
-(** val hdr : z -> bytes **)
-
-let hdr id =
-  id :: (Z0 :: (Z0 :: (Z0 :: [])))
-
-(** val enc_rec : rec0 -> bytes **)
-
-let enc_rec = function
-| RSep (crc, len) ->
-  app (hdr wOP_SEP)
-    (app (le_enc (S (S (S (S O)))) crc) (le_enc (S (S (S (S O)))) len))
-| RSet (val0, off, len) ->
-  app (hdr wOP_SET)
-    (app (le_enc (S (S (S (S O)))) val0)
-      (app (le_enc (S (S (S (S (S (S (S (S O)))))))) off)
-        (le_enc (S (S (S (S (S (S (S (S O)))))))) len)))
-| RCopy (off, len, noff) ->
-  app (hdr wOP_COPY)
-    (app (le_enc (S (S (S (S (S (S (S (S O)))))))) off)
-      (app (le_enc (S (S (S (S (S (S (S (S O)))))))) len)
-        (le_enc (S (S (S (S (S (S (S (S O)))))))) noff)))
-| RWrite (crc, off, payload) ->
-  app (hdr wOP_WRITE)
-    (app (le_enc (S (S (S (S O)))) crc)
-      (app (le_enc (S (S (S (S O)))) (Z.of_nat (length payload)))
-        (app (le_enc (S (S (S (S (S (S (S (S O)))))))) off) payload)))
-| RResize (osize, nsize) ->
-  app (hdr wOP_RESIZE)
-    (app (le_enc (S (S (S (S (S (S (S (S O)))))))) osize)
-      (le_enc (S (S (S (S (S (S (S (S O)))))))) nsize))
-| RSavepoint ts ->
-  app (hdr wOP_SAVEPOINT) (le_enc (S (S (S (S (S (S (S (S O)))))))) ts)
-| RReset -> hdr wOP_RESET
-
-(** val encode : rec0 list -> bytes **)
-
-let encode rs =
-  flat_map enc_rec rs
-
-(** val rec_size : rec0 -> z **)
-
-let rec_size = function
-| RSep (_, _) -> sizeof_WBSEP
-| RSet (_, _, _) -> sizeof_WBSET
-| RCopy (_, _, _) -> sizeof_WBCOPY
-| RWrite (_, _, p) -> Z.add sizeof_WBWRITE (Z.of_nat (length p))
-| RResize (_, _) -> sizeof_WBRESIZE
-| RSavepoint _ -> sizeof_WBSAVEPOINT
-| RReset -> sizeof_WBRESET
-
-(** val layout_ok : bool **)
-
-let layout_ok =
-  (&&)
-    ((&&)
-      ((&&)
-        ((&&)
-          ((&&)
-            ((&&)
-              ((&&)
-                ((&&)
-                  ((&&)
-                    ((&&)
-                      ((&&)
-                        ((&&)
-                          ((&&)
-                            ((&&)
-                              ((&&)
-                                ((&&)
-                                  ((&&)
-                                    ((&&)
-                                      ((&&)
-                                        ((&&)
-                                          ((&&)
-                                            ((&&)
-                                              ((&&)
-                                                ((&&)
-                                                  ((&&)
-                                                    ((&&)
-                                                      ((&&)
-                                                        (Z.eqb sizeof_WBSEP
-                                                          (Zpos (XO (XO (XI
-                                                          XH)))))
-                                                        (Z.eqb
-                                                          offsetof_WBSEP_crc
-                                                          (Zpos (XO (XO XH)))))
-                                                      (Z.eqb
-                                                        offsetof_WBSEP_len
-                                                        (Zpos (XO (XO (XO
-                                                        XH))))))
-                                                    (Z.eqb sizeof_WBRESET
-                                                      (Zpos (XO (XO XH)))))
-                                                  (Z.eqb sizeof_WBSET (Zpos
-                                                    (XO (XO (XO (XI XH)))))))
-                                                (Z.eqb offsetof_WBSET_val
-                                                  (Zpos (XO (XO XH)))))
-                                              (Z.eqb offsetof_WBSET_off (Zpos
-                                                (XO (XO (XO XH))))))
-                                            (Z.eqb offsetof_WBSET_len (Zpos
-                                              (XO (XO (XO (XO XH)))))))
-                                          (Z.eqb sizeof_WBCOPY (Zpos (XO (XO
-                                            (XI (XI XH)))))))
-                                        (Z.eqb offsetof_WBCOPY_off (Zpos (XO
-                                          (XO XH)))))
-                                      (Z.eqb offsetof_WBCOPY_len (Zpos (XO
-                                        (XO (XI XH))))))
-                                    (Z.eqb offsetof_WBCOPY_noff (Zpos (XO (XO
-                                      (XI (XO XH)))))))
-                                  (Z.eqb sizeof_WBWRITE (Zpos (XO (XO (XI (XO
-                                    XH)))))))
-                                (Z.eqb offsetof_WBWRITE_crc (Zpos (XO (XO
-                                  XH)))))
-                              (Z.eqb offsetof_WBWRITE_len (Zpos (XO (XO (XO
-                                XH))))))
-                            (Z.eqb offsetof_WBWRITE_off (Zpos (XO (XO (XI
-                              XH))))))
-                          (Z.eqb sizeof_WBRESIZE (Zpos (XO (XO (XI (XO
-                            XH)))))))
-                        (Z.eqb offsetof_WBRESIZE_osize (Zpos (XO (XO XH)))))
-                      (Z.eqb offsetof_WBRESIZE_nsize (Zpos (XO (XO (XI XH))))))
-                    (Z.eqb sizeof_WBSAVEPOINT (Zpos (XO (XO (XI XH))))))
-                  (Z.eqb offsetof_WBSAVEPOINT_ts (Zpos (XO (XO XH)))))
-                (Z.eqb wOP_SET (Zpos XH))) (Z.eqb wOP_COPY (Zpos (XO XH))))
-            (Z.eqb wOP_WRITE (Zpos (XI XH))))
-          (Z.eqb wOP_RESIZE (Zpos (XO (XO XH)))))
-        (Z.eqb wOP_SAVEPOINT (Zpos (XI (XO XH)))))
-      (Z.eqb wOP_RESET (Zpos (XO (XI XH)))))
-    (Z.eqb wOP_SEP (Zpos (XI (XI (XI (XI (XI (XI XH))))))))
-
-(** val crc32_step : z -> z -> z **)
-
-let crc32_step crc b =
-  Z.coq_lxor
-    (Z.coq_land (Z.shiftl crc (Zpos (XO (XO (XO XH))))) (Zpos (XI (XI (XI (XI
-      (XI (XI (XI (XI (XI (XI (XI (XI (XI (XI (XI (XI (XI (XI (XI (XI (XI (XI
-      (XI (XI (XI (XI (XI (XI (XI (XI (XI XH)))))))))))))))))))))))))))))))))
-    (nth
-      (Z.to_nat
-        (Z.coq_land
-          (Z.coq_lxor (Z.shiftr crc (Zpos (XO (XO (XO (XI XH)))))) b) (Zpos
-          (XI (XI (XI (XI (XI (XI (XI XH)))))))))) iwu_crc32_table Z0)
-
-(** val crc32 : bytes -> z -> z **)
-
-let crc32 buf init =
-  fold_left crc32_step buf init
-
-type sstep =
-| SStop
-| SNext of z * z * z
-
-(** val scan_step : bool -> bool -> z -> z -> bytes -> z -> z -> sstep **)
-
-let scan_step spchk first avail pos l fpos rpos =
-  let opid = nth O l Z0 in
-  if (&&) first (negb (Z.eqb opid wOP_SEP))
-  then SStop
-  else if Z.eqb opid wOP_SEP
-       then if Z.ltb avail sizeof_WBSEP
-            then SStop
-            else if Z.gtb (rd (S (S (S (S O)))) offsetof_WBSEP_len l) avail
-                 then SStop
-                 else SNext (sizeof_WBSEP, fpos, rpos)
-       else if Z.eqb opid wOP_SET
-            then if Z.ltb avail sizeof_WBSET
-                 then SStop
-                 else SNext (sizeof_WBSET, fpos, rpos)
-            else if Z.eqb opid wOP_COPY
-                 then if Z.ltb avail sizeof_WBCOPY
-                      then SStop
-                      else SNext (sizeof_WBCOPY, fpos, rpos)
-                 else if Z.eqb opid wOP_WRITE
-                      then if Z.ltb avail sizeof_WBWRITE
-                           then SStop
-                           else let len =
-                                  rd (S (S (S (S O)))) offsetof_WBWRITE_len l
-                                in
-                                if Z.ltb avail len
-                                then SStop
-                                else SNext ((Z.add sizeof_WBWRITE len), fpos,
-                                       rpos)
-                      else if Z.eqb opid wOP_RESIZE
-                           then if Z.ltb avail sizeof_WBRESIZE
-                                then SStop
-                                else SNext (sizeof_WBRESIZE, fpos, rpos)
-                           else if Z.eqb opid wOP_SAVEPOINT
-                                then if (&&) spchk
-                                          (Z.ltb avail sizeof_WBSAVEPOINT)
-                                     then SStop
-                                     else SNext (sizeof_WBSAVEPOINT, pos,
-                                            rpos)
-                                else if Z.eqb opid wOP_RESET
-                                     then SNext (sizeof_WBRESET, fpos, pos)
-                                     else SStop
-
-(** val scan_loop :
-    bool -> nat -> bool -> z -> z -> bytes -> z -> z -> z * z **)
-
-let rec scan_loop spchk fuel first fsz pos l fpos rpos =
-  match fuel with
-  | O -> (fpos, rpos)
-  | S f ->
-    if negb (Z.ltb pos fsz)
-    then (fpos, rpos)
-    else (match scan_step spchk first (Z.sub fsz pos) pos l fpos rpos with
-          | SStop -> (fpos, rpos)
-          | SNext (adv, fp, rp) ->
-            scan_loop spchk f false fsz (Z.add pos adv)
-              (skipn (Z.to_nat adv) l) fp rp)
-
-(** val sp_checks : bool **)
-
-let sp_checks =
-  Z.eqb wAL_SCAN_SP_CHECKS_AVAIL (Zpos XH)
-
-(** val scan_with : bool -> bytes -> z * z **)
-
-let scan_with spchk wal =
-  scan_loop spchk (S (length wal)) true (Z.of_nat (length wal)) Z0 wal Z0 Z0
-
-(** val scan : bytes -> z * z **)
-
-let scan wal =
-  scan_with sp_checks wal
-
-(** val parse_loop : nat -> bytes -> rec0 list option **)
-
-let rec parse_loop fuel l =
-  match fuel with
-  | O -> None
-  | S f ->
-    (match l with
-     | [] -> Some []
-     | opid :: _ ->
-       let avail = Z.of_nat (length l) in
-       let next = fun sz r ->
-         if Z.ltb avail sz
-         then None
-         else (match parse_loop f (skipn (Z.to_nat sz) l) with
-               | Some rs -> Some (r :: rs)
-               | None -> None)
-       in
-       if Z.eqb opid wOP_SEP
-       then next sizeof_WBSEP (RSep
-              ((rd (S (S (S (S O)))) offsetof_WBSEP_crc l),
-              (rd (S (S (S (S O)))) offsetof_WBSEP_len l)))
-       else if Z.eqb opid wOP_SET
-            then next sizeof_WBSET (RSet
-                   ((rd (S (S (S (S O)))) offsetof_WBSET_val l),
-                   (rd_off offsetof_WBSET_off l),
-                   (rd_off offsetof_WBSET_len l)))
-            else if Z.eqb opid wOP_COPY
-                 then next sizeof_WBCOPY (RCopy
-                        ((rd_off offsetof_WBCOPY_off l),
-                        (rd_off offsetof_WBCOPY_len l),
-                        (rd_off offsetof_WBCOPY_noff l)))
-                 else if Z.eqb opid wOP_WRITE
-                      then if Z.ltb avail sizeof_WBWRITE
-                           then None
-                           else let len =
-                                  rd (S (S (S (S O)))) offsetof_WBWRITE_len l
-                                in
-                                next (Z.add sizeof_WBWRITE len) (RWrite
-                                  ((rd (S (S (S (S O)))) offsetof_WBWRITE_crc
-                                     l), (rd_off offsetof_WBWRITE_off l),
-                                  (firstn (Z.to_nat len)
-                                    (skipn (Z.to_nat sizeof_WBWRITE) l))))
-                      else if Z.eqb opid wOP_RESIZE
-                           then next sizeof_WBRESIZE (RResize
-                                  ((rd_off offsetof_WBRESIZE_osize l),
-                                  (rd_off offsetof_WBRESIZE_nsize l)))
-                           else if Z.eqb opid wOP_SAVEPOINT
-                                then next sizeof_WBSAVEPOINT (RSavepoint
-                                       (rd (S (S (S (S (S (S (S (S O))))))))
-                                         offsetof_WBSAVEPOINT_ts l))
-                                else if Z.eqb opid wOP_RESET
-                                     then next sizeof_WBRESET RReset
-                                     else None)
-
-(** val parse : bytes -> rec0 list option **)
-
-let parse wal =
-  parse_loop (S (length wal)) wal
-
-(** val is_sp : rec0 -> bool **)
-
-let is_sp = function
-| RSavepoint _ -> true
-| _ -> false
-
-(** val is_sep : rec0 -> bool **)
-
-let is_sep = function
-| RSep (_, _) -> true
-| _ -> false
-
-(** val first_sp : rec0 list -> z -> z option **)
-
-let rec first_sp rs pos =
-  match rs with
-  | [] -> None
-  | r :: t ->
-    if is_sp r then Some pos else first_sp t (Z.add pos (rec_size r))
-
-(** val u32 : z -> bool **)
-
-let u32 x =
-  (&&) (Z.leb Z0 x)
-    (Z.ltb x (Zpos (XO (XO (XO (XO (XO (XO (XO (XO (XO (XO (XO (XO (XO (XO
-      (XO (XO (XO (XO (XO (XO (XO (XO (XO (XO (XO (XO (XO (XO (XO (XO (XO (XO
-      XH))))))))))))))))))))))))))))))))))
-
-(** val i64 : z -> bool **)
-
-let i64 x =
-  (&&)
-    (Z.leb (Zneg (XO (XO (XO (XO (XO (XO (XO (XO (XO (XO (XO (XO (XO (XO (XO
-      (XO (XO (XO (XO (XO (XO (XO (XO (XO (XO (XO (XO (XO (XO (XO (XO (XO (XO
-      (XO (XO (XO (XO (XO (XO (XO (XO (XO (XO (XO (XO (XO (XO (XO (XO (XO (XO
-      (XO (XO (XO (XO (XO (XO (XO (XO (XO (XO (XO (XO
-      XH)))))))))))))))))))))))))))))))))))))))))))))))))))))))))))))))) x)
-    (Z.ltb x (Zpos (XO (XO (XO (XO (XO (XO (XO (XO (XO (XO (XO (XO (XO (XO
-      (XO (XO (XO (XO (XO (XO (XO (XO (XO (XO (XO (XO (XO (XO (XO (XO (XO (XO
-      (XO (XO (XO (XO (XO (XO (XO (XO (XO (XO (XO (XO (XO (XO (XO (XO (XO (XO
-      (XO (XO (XO (XO (XO (XO (XO (XO (XO (XO (XO (XO (XO
-      XH)))))))))))))))))))))))))))))))))))))))))))))))))))))))))))))))))
-
-(** val rec_range : rec0 -> bool **)
-
-let rec_range = function
-| RSep (crc, len) -> (&&) (u32 crc) (u32 len)
-| RSet (val0, off, len) -> (&&) ((&&) (u32 val0) (i64 off)) (i64 len)
-| RCopy (off, len, noff) -> (&&) ((&&) (i64 off) (i64 len)) (i64 noff)
-| RWrite (crc, off, p) ->
-  (&&) ((&&) ((&&) (u32 crc) (i64 off)) (u32 (Z.of_nat (length p))))
-    (forallb (fun b ->
-      (&&) (Z.leb Z0 b)
-        (Z.ltb b (Zpos (XO (XO (XO (XO (XO (XO (XO (XO XH))))))))))) p)
-| RResize (o, n0) -> (&&) (i64 o) (i64 n0)
-| RSavepoint ts ->
-  (&&) (Z.leb Z0 ts)
-    (Z.ltb ts (Zpos (XO (XO (XO (XO (XO (XO (XO (XO (XO (XO (XO (XO (XO (XO
-      (XO (XO (XO (XO (XO (XO (XO (XO (XO (XO (XO (XO (XO (XO (XO (XO (XO (XO
-      (XO (XO (XO (XO (XO (XO (XO (XO (XO (XO (XO (XO (XO (XO (XO (XO (XO (XO
-      (XO (XO (XO (XO (XO (XO (XO (XO (XO (XO (XO (XO (XO (XO
-      XH))))))))))))))))))))))))))))))))))))))))))))))))))))))))))))))))))
-| RReset -> true
-
-(** val sep_ok : rec0 list -> z -> bool **)
-
-let rec sep_ok rs pos =
-  match rs with
-  | [] -> true
-  | r :: t ->
-    (&&)
-      (match r with
-       | RSep (_, len) ->
-         (match first_sp t (Z.add pos (rec_size r)) with
-          | Some q -> Z.leb (Z.add pos len) q
-          | None -> true)
-       | _ -> true) (sep_ok t (Z.add pos (rec_size r)))
-
-(** val wf_log : rec0 list -> bool **)
-
-let wf_log rs =
-  (&&)
-    ((&&) (match rs with
-           | [] -> true
-           | r :: _ -> is_sep r) (forallb rec_range rs)) (sep_ok rs Z0)
-
-(** val crc_ok : rec0 list -> bool **)
-
-let rec crc_ok = function
-| [] -> true
-| r :: t ->
-  (&&)
-    (match r with
-     | RSep (crc, len) ->
-       (||) (Z.eqb crc Z0)
-         (Z.eqb (crc32 (firstn (Z.to_nat len) (encode t)) Z0) crc)
-     | RWrite (crc, _, p) -> (||) (Z.eqb crc Z0) (Z.eqb (crc32 p Z0) crc)
-     | _ -> true) (crc_ok t)
-
-(** val crc_full : rec0 list -> bool **)
-
-let rec crc_full = function
-| [] -> true
-| r :: t ->
-  (&&)
-    (match r with
-     | RSep (crc, len) ->
-       Z.eqb (crc32 (firstn (Z.to_nat len) (encode t)) Z0) crc
-     | RWrite (crc, _, p) -> Z.eqb (crc32 p Z0) crc
-     | _ -> true) (crc_full t)
-
-(** val sp_offsets : rec0 list -> z -> z list **)
-
-let rec sp_offsets rs pos =
-  match rs with
-  | [] -> []
-  | r :: t ->
-    app (if is_sp r then pos :: [] else [])
-      (sp_offsets t (Z.add pos (rec_size r)))
-
-type verdict =
-| VOk
-| VCorrupt
-| VFault
-
-type aop =
-| ASet of z * z * z
-| ACopy of z * z * z
-| AWrite of z * bytes
-| AResize of z
-
-(** val take_pad : z -> bytes -> bytes **)
-
-let take_pad n0 l =
-  let t = firstn (Z.to_nat n0) l in
-  app t (repeat Z0 (sub (Z.to_nat n0) (length t)))
-
-type rstep =
-| RStop of verdict
-| RNext of z * aop list
-
-(** val replay_step : bool -> bool -> z -> z -> bytes -> z -> rstep **)
-
-let replay_step ccrc first avail pos l fpos =
-  let opid = nth O l Z0 in
-  if (&&) first (negb (Z.eqb opid wOP_SEP))
-  then RStop VCorrupt
-  else if Z.eqb opid wOP_SEP
-       then if Z.ltb avail sizeof_WBSEP
-            then RStop VCorrupt
-            else let len = rd (S (S (S (S O)))) offsetof_WBSEP_len l in
-                 let crc = rd (S (S (S (S O)))) offsetof_WBSEP_crc l in
-                 if Z.gtb len avail
-                 then RStop VCorrupt
-                 else if (&&) ((&&) ccrc (negb (Z.eqb crc Z0)))
-                           (negb
-                             (Z.eqb
-                               (crc32
-                                 (take_pad len
-                                   (skipn (Z.to_nat sizeof_WBSEP) l)) Z0) crc))
-                      then RStop VCorrupt
-                      else RNext (sizeof_WBSEP, [])
-       else if Z.eqb opid wOP_SET
-            then if Z.ltb avail sizeof_WBSET
-                 then RStop VCorrupt
-                 else RNext (sizeof_WBSET, ((ASet
-                        ((rd (S (S (S (S O)))) offsetof_WBSET_val l),
-                        (rd_off offsetof_WBSET_off l),
-                        (rd_off offsetof_WBSET_len l))) :: []))
-            else if Z.eqb opid wOP_COPY
-                 then if Z.ltb avail sizeof_WBCOPY
-                      then RStop VCorrupt
-                      else RNext (sizeof_WBCOPY, ((ACopy
-                             ((rd_off offsetof_WBCOPY_off l),
-                             (rd_off offsetof_WBCOPY_len l),
-                             (rd_off offsetof_WBCOPY_noff l))) :: []))
-                 else if Z.eqb opid wOP_WRITE
-                      then if Z.ltb avail sizeof_WBWRITE
-                           then RStop VCorrupt
-                           else let len =
-                                  rd (S (S (S (S O)))) offsetof_WBWRITE_len l
-                                in
-                                let crc =
-                                  rd (S (S (S (S O)))) offsetof_WBWRITE_crc l
-                                in
-                                if Z.ltb avail len
-                                then RStop VCorrupt
-                                else let data =
-                                       take_pad len
-                                         (skipn (Z.to_nat sizeof_WBWRITE) l)
-                                     in
-                                     if (&&)
-                                          ((&&) ccrc (negb (Z.eqb crc Z0)))
-                                          (negb (Z.eqb (crc32 data Z0) crc))
-                                     then RStop VCorrupt
-                                     else RNext ((Z.add sizeof_WBWRITE len),
-                                            ((AWrite
-                                            ((rd_off offsetof_WBWRITE_off l),
-                                            data)) :: []))
-                      else if Z.eqb opid wOP_RESIZE
-                           then if Z.ltb avail sizeof_WBRESIZE
-                                then RStop VCorrupt
-                                else RNext (sizeof_WBRESIZE, ((AResize
-                                       (rd_off offsetof_WBRESIZE_nsize l)) :: []))
-                           else if Z.eqb opid wOP_SAVEPOINT
-                                then if Z.eqb fpos pos
-                                     then RStop VOk
-                                     else RNext (sizeof_WBSAVEPOINT, [])
-                                else if Z.eqb opid wOP_RESET
-                                     then RNext (sizeof_WBRESET, [])
-                                     else RStop VCorrupt
-
-(** val replay_loop :
-    nat -> bool -> bool -> z -> z -> bytes -> z -> verdict * aop list **)
-
-let rec replay_loop fuel ccrc first fsz pos l fpos =
-  match fuel with
-  | O -> (VOk, [])
-  | S f ->
-    if negb (Z.ltb pos fsz)
-    then (VOk, [])
-    else (match replay_step ccrc first (Z.sub fsz pos) pos l fpos with
-          | RStop v -> (v, [])
-          | RNext (adv, op) ->
-            let (v, ops) =
-              replay_loop f ccrc false fsz (Z.add pos adv)
-                (skipn (Z.to_nat adv) l) fpos
-            in
-            (v, (app op ops)))
-
-(** val fpos_rebased : bool **)
-
-let fpos_rebased =
-  Z.eqb wAL_REPLAY_REBASES_FPOS (Zpos XH)
-
-(** val replay_ops_with :
-    bool -> bool -> z -> z -> bytes -> verdict * aop list **)
-
-let replay_ops_with spchk ccrc mode rfoff wal =
-  let fsz = Z.of_nat (length wal) in
-  if Z.eqb fsz Z0
-  then (VOk, [])
-  else if negb (Z.eqb mode Z0)
-       then let (fpos, rpos) = scan_with spchk wal in
-            if Z.eqb fpos Z0
-            then (VOk, [])
-            else if (&&) (Z.gtb rpos Z0) (Z.eqb mode (Zpos XH))
-                 then if Z.ltb fpos rpos
-                      then (VOk, [])
-                      else let r = Z.sub rpos sizeof_WBSEP in
-                           replay_loop (S (length wal)) ccrc true
-                             (Z.sub fsz r) Z0 (skipn (Z.to_nat r) wal)
-                             (if fpos_rebased then Z.sub fpos r else fpos)
-                 else replay_loop (S (length wal)) ccrc true fsz Z0 wal fpos
-       else if Z.gtb rfoff Z0
-            then if Z.geb rfoff fsz
-                 then (VCorrupt, [])
-                 else replay_loop (S (length wal)) ccrc true
-                        (Z.sub fsz rfoff) Z0 (skipn (Z.to_nat rfoff) wal) Z0
-            else replay_loop (S (length wal)) ccrc true fsz Z0 wal Z0
-
-(** val replay_ops : bool -> z -> z -> bytes -> verdict * aop list **)
-
-let replay_ops ccrc mode rfoff wal =
-  replay_ops_with sp_checks ccrc mode rfoff wal
-
-(** val overwrite : bytes -> bytes -> bytes option **)
-
-let rec overwrite m = function
-| [] -> Some m
-| d :: ds ->
-  (match m with
-   | [] -> None
-   | _ :: t -> option_map (fun x -> d :: x) (overwrite t ds))
-
-(** val splice_at : bytes -> z -> bytes -> bytes option **)
-
-let rec splice_at m off data =
-  if Z.leb off Z0
-  then overwrite m data
-  else (match m with
-        | [] -> None
-        | x :: t ->
-          option_map (fun x0 -> x :: x0)
-            (splice_at t (Z.sub off (Zpos XH)) data))
-
-(** val splice : bytes -> z -> bytes -> bytes option **)
-
-let splice m off data =
-  if Z.ltb off Z0 then None else splice_at m off data
-
-(** val fill_at : bytes -> z -> z -> z -> bytes option **)
-
-let rec fill_at m off len v =
-  match m with
-  | [] -> if (&&) (Z.leb off Z0) (Z.leb len Z0) then Some [] else None
-  | x :: t ->
-    if Z.ltb Z0 off
-    then option_map (fun x0 -> x :: x0)
-           (fill_at t (Z.sub off (Zpos XH)) len v)
-    else if Z.ltb Z0 len
-         then option_map (fun x0 -> v :: x0)
-                (fill_at t Z0 (Z.sub len (Zpos XH)) v)
-         else Some m
-
-(** val slice_at : bytes -> z -> z -> bytes option **)
-
-let rec slice_at m off len =
-  match m with
-  | [] -> if (&&) (Z.leb off Z0) (Z.leb len Z0) then Some [] else None
-  | x :: t ->
-    if Z.ltb Z0 off
-    then slice_at t (Z.sub off (Zpos XH)) len
-    else if Z.ltb Z0 len
-         then option_map (fun x0 -> x :: x0)
-                (slice_at t Z0 (Z.sub len (Zpos XH)))
-         else Some []
-
-(** val resize_nat : nat -> bytes -> bytes **)
-
-let rec resize_nat n0 m =
-  match n0 with
-  | O -> []
-  | S k ->
-    (match m with
-     | [] -> Z0 :: (resize_nat k [])
-     | x :: t -> x :: (resize_nat k t))
-
-(** val apply_op : bytes -> aop -> bytes option **)
-
-let apply_op m = function
-| ASet (val0, off, len) ->
-  if (||) (Z.ltb len Z0) (Z.ltb off Z0)
-  then None
-  else fill_at m off len
-         (Z.modulo val0 (Zpos (XO (XO (XO (XO (XO (XO (XO (XO XH))))))))))
-| ACopy (off, len, noff) ->
-  if (||) (Z.ltb len Z0) (Z.ltb off Z0)
-  then None
-  else (match slice_at m off len with
-        | Some src -> splice m noff src
+    (match rd m (Z.add dst (Zpos XH)) with
+     | Some x ->
+       (match wr m dst x with
+        | Some m' -> shl1 k m' (Z.add dst (Zpos XH))
         | None -> None)
-| AWrite (off, data) -> splice m off data
-| AResize nsize ->
-  if (||) (Z.ltb nsize Z0)
-       (Z.ltb (Zpos (XO (XO (XO (XO (XO (XO (XO (XO (XO (XO (XO (XO (XO (XO
-         (XO (XO (XO (XO (XO (XO (XO (XO (XO (XO XH)))))))))))))))))))))))))
-         nsize)
-  then None
-  else Some (resize_nat (Z.to_nat (iW_ROUNDUP nsize wAL_PAGE_SIZE)) m)
+     | None -> None)
 
-(** val apply_ops : bytes -> aop list -> bytes option **)
+(** val itoa_loop :
+    nat -> z -> z -> z -> z -> z -> mem -> ((z * z) * mem) option **)
 
-let rec apply_ops m = function
+let rec itoa_loop fuel ptr max ret p v m =
+  match fuel with
+  | O -> Some ((ret, p), m)
+  | S f ->
+    if Z.eqb v Z0
+    then Some ((ret, p), m)
+    else let ret0 = Z.add ret (Zpos XH) in
+         if Z.geb ret0 max
+         then if Z.eqb p ptr
+              then Some ((ret0, p), m)
+              else (match shl1 (Z.to_nat (Z.sub p ptr)) m ptr with
+                    | Some m1 ->
+                      (match wr m1 (Z.sub p (Zpos XH))
+                               (Z.add (Zpos (XO (XO (XO (XO (XI XH))))))
+                                 (Z.modulo v (Zpos (XO (XI (XO XH)))))) with
+                       | Some m2 ->
+                         itoa_loop f ptr max ret0 p
+                           (Z.div v (Zpos (XO (XI (XO XH))))) m2
+                       | None -> None)
+                    | None -> None)
+         else (match wr m p
+                       (Z.add (Zpos (XO (XO (XO (XO (XI XH))))))
+                         (Z.modulo v (Zpos (XO (XI (XO XH)))))) with
+               | Some m2 ->
+                 itoa_loop f ptr max ret0 (Z.add p (Zpos XH))
+                   (Z.div v (Zpos (XO (XI (XO XH))))) m2
+               | None -> None)
+
+(** val rev_loop : nat -> z -> z -> mem -> mem option **)
+
+let rec rev_loop fuel ptr p m =
+  match fuel with
+  | O -> Some m
+  | S f ->
+    if Z.gtb p ptr
+    then let p0 = Z.sub p (Zpos XH) in
+         (match rd m p0 with
+          | Some c ->
+            (match rd m ptr with
+             | Some d ->
+               (match wr m p0 d with
+                | Some m1 ->
+                  (match wr m1 ptr c with
+                   | Some m2 -> rev_loop f (Z.add ptr (Zpos XH)) p0 m2
+                   | None -> None)
+                | None -> None)
+             | None -> None)
+          | None -> None)
+    else Some m
+
+(** val int64_min_text : z list **)
+
+let int64_min_text =
+  (Zpos (XI (XO (XI (XI (XO XH)))))) :: ((Zpos (XI (XO (XO (XI (XI
+    XH)))))) :: ((Zpos (XO (XI (XO (XO (XI XH)))))) :: ((Zpos (XO (XI (XO (XO
+    (XI XH)))))) :: ((Zpos (XI (XI (XO (XO (XI XH)))))) :: ((Zpos (XI (XI (XO
+    (XO (XI XH)))))) :: ((Zpos (XI (XI (XI (XO (XI XH)))))) :: ((Zpos (XO (XI
+    (XO (XO (XI XH)))))) :: ((Zpos (XO (XO (XO (XO (XI XH)))))) :: ((Zpos (XI
+    (XI (XO (XO (XI XH)))))) :: ((Zpos (XO (XI (XI (XO (XI XH)))))) :: ((Zpos
+    (XO (XO (XO (XI (XI XH)))))) :: ((Zpos (XI (XO (XI (XO (XI
+    XH)))))) :: ((Zpos (XO (XO (XI (XO (XI XH)))))) :: ((Zpos (XI (XI (XI (XO
+    (XI XH)))))) :: ((Zpos (XI (XI (XI (XO (XI XH)))))) :: ((Zpos (XI (XO (XI
+    (XO (XI XH)))))) :: ((Zpos (XO (XO (XO (XI (XI XH)))))) :: ((Zpos (XO (XO
+    (XO (XO (XI XH)))))) :: ((Zpos (XO (XO (XO (XI (XI
+    XH)))))) :: [])))))))))))))))))))
+
+(** val wr_list : mem -> z -> z list -> mem option **)
+
+let rec wr_list m i = function
 | [] -> Some m
-| op :: r ->
-  (match apply_op m op with
-   | Some m' -> apply_ops m' r
+| x :: r ->
+  (match wr m i x with
+   | Some m' -> wr_list m' (Z.add i (Zpos XH)) r
    | None -> None)
 
-(** val recover_with :
-    bool -> bool -> z -> z -> bytes -> bytes -> (verdict * bytes) * aop list **)
+(** val itoa_digits : z -> mem -> z -> z -> z -> (z * mem) option **)
 
-let recover_with spchk ccrc mode rfoff wal main =
-  let (v, ops) = replay_ops_with spchk ccrc mode rfoff wal in
-  (match apply_ops main ops with
-   | Some m -> ((v, m), ops)
-   | None -> ((VFault, main), ops))
+let itoa_digits v m0 max ptr ret =
+  match itoa_loop (S (S (S (S (S (S (S (S (S (S (S (S (S (S (S (S (S (S (S (S
+          O)))))))))))))))))))) ptr max ret ptr v m0 with
+  | Some p0 ->
+    let (p1, m1) = p0 in
+    let (ret', p) = p1 in
+    (match rev_loop (S (S (S (S (S (S (S (S (S (S (S (S (S (S (S (S (S (S (S
+             (S O)))))))))))))))))))) ptr p m1 with
+     | Some m2 ->
+       (match wr m2 p Z0 with
+        | Some m3 -> Some (ret', m3)
+        | None -> None)
+     | None -> None)
+  | None -> None
 
-(** val recover :
-    bool -> z -> z -> bytes -> bytes -> (verdict * bytes) * aop list **)
+(** val itoa : z -> mem -> z -> (z * mem) option **)
 
-let recover ccrc mode rfoff wal main =
-  recover_with sp_checks ccrc mode rfoff wal main
+let itoa v m max =
+  if Z.ltb max (Zpos XH)
+  then Some (Z0, m)
+  else if Z.eqb v Z0
+       then if Z.geb (Zpos XH) max
+            then (match wr m Z0 Z0 with
+                  | Some m' -> Some ((Zpos XH), m')
+                  | None -> None)
+            else (match wr m Z0 (Zpos (XO (XO (XO (XO (XI XH)))))) with
+                  | Some m1 ->
+                    (match wr m1 (Zpos XH) Z0 with
+                     | Some m2 -> Some ((Zpos XH), m2)
+                     | None -> None)
+                  | None -> None)
+       else if Z.eqb v
+                 (Z.opp
+                   (Z.pow (Zpos (XO XH)) (Zpos (XI (XI (XI (XI (XI XH))))))))
+            then let n0 =
+                   Z.min (Z.sub max (Zpos XH)) (Zpos (XO (XO (XI (XO XH)))))
+                 in
+                 (match wr_list m Z0 (firstn (Z.to_nat n0) int64_min_text) with
+                  | Some m1 ->
+                    (match wr m1 n0 Z0 with
+                     | Some m2 -> Some ((Zpos (XO (XO (XI (XO XH))))), m2)
+                     | None -> None)
+                  | None -> None)
+            else if Z.ltb v Z0
+                 then if Z.geb (Zpos XH) max
+                      then (match wr m Z0 Z0 with
+                            | Some m' -> Some ((Zpos XH), m')
+                            | None -> None)
+                      else (match wr m Z0 (Zpos (XI (XO (XI (XI (XO XH)))))) with
+                            | Some m0 ->
+                              itoa_digits (Z.opp v) m0 max (Zpos XH) (Zpos XH)
+                            | None -> None)
+                 else itoa_digits v m max Z0 Z0
 
-(** val aop_sig : aop -> (z * z) * z **)
+(** val cstr : nat -> mem -> z -> z list **)
 
-let aop_sig = function
-| ASet (_, off, len) -> ((wOP_SET, off), len)
-| ACopy (_, len, noff) -> ((wOP_COPY, noff), len)
-| AWrite (off, d) -> ((wOP_WRITE, off), (Z.of_nat (length d)))
-| AResize n0 -> ((wOP_RESIZE, n0), Z0)
+let rec cstr fuel m i =
+  match fuel with
+  | O -> []
+  | S f ->
+    if inb m i
+    then let c = peek m i in
+         if Z.eqb c Z0 then [] else c :: (cstr f m (Z.add i (Zpos XH)))
+    else []
 
-type effect =
-| ELogAppend of bytes
-| ELogFsync
-| ELogTruncate
-| EMainStore of aop
-| EMainResize of z
-| EMsync
+(** val skip_ws : z list -> z list **)
 
-type pstate = { p_buf : bytes; p_log : bytes; p_disk : bytes; p_rfoff : 
-                z; p_stage : z; p_fatal : bool }
-
-type pcfg = { c_bufsz : z; c_ccrc : bool }
-
-(** val lenZ : bytes -> z **)
-
-let lenZ l =
-  Z.of_nat (length l)
-
-(** val flush_wl : pcfg -> pstate -> bool -> pstate * effect list **)
-
-let flush_wl c s sync =
-  let (s1, e1) =
-    match s.p_buf with
-    | [] -> (s, [])
-    | _ :: _ ->
-      let crc = if c.c_ccrc then crc32 s.p_buf Z0 else Z0 in
-      let seg = app (enc_rec (RSep (crc, (lenZ s.p_buf)))) s.p_buf in
-      ({ p_buf = []; p_log = (app s.p_log seg); p_disk = s.p_disk; p_rfoff =
-      s.p_rfoff; p_stage = s.p_stage; p_fatal = s.p_fatal }, ((ELogAppend
-      seg) :: []))
-  in
-  (s1, (app e1 (if sync then ELogFsync :: [] else [])))
-
-(** val write_wl :
-    pcfg -> pstate -> bytes -> bytes -> pstate * effect list **)
-
-let write_wl c s hdr0 data =
-  let (s1, e1) =
-    if Z.ltb (Z.sub c.c_bufsz (lenZ s.p_buf)) (lenZ hdr0)
-    then flush_wl c s false
-    else (s, [])
-  in
-  let s2 = { p_buf = (app s1.p_buf hdr0); p_log = s1.p_log; p_disk =
-    s1.p_disk; p_rfoff = s1.p_rfoff; p_stage = s1.p_stage; p_fatal =
-    s1.p_fatal }
-  in
-  if Z.ltb (Z.sub c.c_bufsz (lenZ s2.p_buf)) (lenZ data)
-  then let (s3, e3) = flush_wl c s2 false in
-       ({ p_buf = s3.p_buf; p_log = (app s3.p_log data); p_disk = s3.p_disk;
-       p_rfoff = s3.p_rfoff; p_stage = s3.p_stage; p_fatal = s3.p_fatal },
-       (app e1 (app e3 ((ELogAppend data) :: []))))
-  else ({ p_buf = (app s2.p_buf data); p_log = s2.p_log; p_disk = s2.p_disk;
-         p_rfoff = s2.p_rfoff; p_stage = s2.p_stage; p_fatal = s2.p_fatal },
-         e1)
-
-(** val replay_effects : z -> aop list -> effect list **)
-
-let rec replay_effects cur = function
+let rec skip_ws s = match s with
 | [] -> []
-| op :: t ->
-  (match op with
-   | AResize n0 ->
-     let n' = iW_ROUNDUP n0 wAL_PAGE_SIZE in
-     app
-       (if Z.eqb n' cur
-        then []
-        else if Z.ltb cur n'
-             then (EMainResize n') :: (EMsync :: [])
-             else EMsync :: ((EMainResize n') :: []))
-       (app ((EMainStore op) :: []) (replay_effects n' t))
-   | _ -> (EMainStore op) :: (replay_effects cur t))
+| c :: r ->
+  if (&&) (Z.leb (Zpos XH) c) (Z.leb c (Zpos (XO (XO (XO (XO (XO XH)))))))
+  then skip_ws r
+  else s
 
-(** val rollforward_live : pcfg -> pstate -> pstate * effect list **)
+(** val atoi_digits : z list -> z -> z **)
 
-let rollforward_live c s =
-  let fsz = lenZ s.p_log in
-  if Z.eqb fsz Z0
-  then (s, [])
-  else let (v, ops) = replay_ops c.c_ccrc Z0 s.p_rfoff s.p_log in
-       let disk' =
-         match apply_ops s.p_disk ops with
-         | Some m -> m
-         | None -> s.p_disk
-       in
-       let e_apply = replay_effects (lenZ s.p_disk) ops in
-       (match v with
-        | VOk ->
-          if (||) (Z.eqb s.p_stage Z0) (Z.eqb s.p_stage bKP_WAL_CLEANUP)
-          then ({ p_buf = s.p_buf; p_log = []; p_disk = disk'; p_rfoff = Z0;
-                 p_stage = s.p_stage; p_fatal = s.p_fatal },
-                 (app e_apply (EMsync :: (ELogTruncate :: (ELogFsync :: [])))))
-          else let (s1, e1) =
-                 flush_wl c { p_buf = s.p_buf; p_log = s.p_log; p_disk =
-                   disk'; p_rfoff = s.p_rfoff; p_stage = s.p_stage; p_fatal =
-                   s.p_fatal } false
-               in
-               let (s2, e2) = write_wl c s1 (enc_rec RReset) [] in
-               let (s3, e3) = flush_wl c s2 true in
-               ({ p_buf = s3.p_buf; p_log = s3.p_log; p_disk = s3.p_disk;
-               p_rfoff =
-               (Z.sub (lenZ s3.p_log) (Z.add sizeof_WBSEP sizeof_WBRESET));
-               p_stage = s3.p_stage; p_fatal = s3.p_fatal },
-               (app e_apply (app (EMsync :: []) (app e1 (app e2 e3)))))
-        | _ ->
-          ({ p_buf = s.p_buf; p_log = s.p_log; p_disk = disk'; p_rfoff =
-            s.p_rfoff; p_stage = s.p_stage; p_fatal = true }, e_apply))
+let rec atoi_digits s num =
+  match s with
+  | [] -> num
+  | c :: r ->
+    if (||) (Z.ltb c (Zpos (XO (XO (XO (XO (XI XH)))))))
+         (Z.gtb c (Zpos (XI (XO (XO (XI (XI XH)))))))
+    then num
+    else atoi_digits r
+           (sw (Zpos (XO (XO (XO (XO (XO (XO XH)))))))
+             (Z.sub (Z.add (Z.mul num (Zpos (XO (XI (XO XH))))) c) (Zpos (XO
+               (XO (XO (XO (XI XH))))))))
 
-(** val checkpoint : pcfg -> pstate -> bool -> z -> pstate * effect list **)
+(** val is_inf : z list -> bool **)
 
-let checkpoint c s no_fixpoint ts =
-  if Z.eqb s.p_stage bKP_MAIN_COPY
-  then (s, [])
-  else let (s1, e1) =
-         if no_fixpoint
-         then (s, [])
-         else write_wl c s (enc_rec (RSavepoint ts)) []
-       in
-       let (s2, e2) = flush_wl c s1 true in
-       let (s3, e3) = rollforward_live c s2 in (s3, (app e1 (app e2 e3)))
+let is_inf = function
+| [] -> false
+| z0 :: l ->
+  (match z0 with
+   | Zpos p ->
+     (match p with
+      | XI p0 ->
+        (match p0 with
+         | XO p1 ->
+           (match p1 with
+            | XO p2 ->
+              (match p2 with
+               | XI p3 ->
+                 (match p3 with
+                  | XO p4 ->
+                    (match p4 with
+                     | XI p5 ->
+                       (match p5 with
+                        | XH ->
+                          (match l with
+                           | [] -> false
+                           | z1 :: l0 ->
+                             (match z1 with
+                              | Zpos p6 ->
+                                (match p6 with
+                                 | XO p7 ->
+                                   (match p7 with
+                                    | XI p8 ->
+                                      (match p8 with
+                                       | XI p9 ->
+                                         (match p9 with
+                                          | XI p10 ->
+                                            (match p10 with
+                                             | XO p11 ->
+                                               (match p11 with
+                                                | XI p12 ->
+                                                  (match p12 with
+                                                   | XH ->
+                                                     (match l0 with
+                                                      | [] -> false
+                                                      | z2 :: l1 ->
+                                                        (match z2 with
+                                                         | Zpos p13 ->
+                                                           (match p13 with
+                                                            | XO p14 ->
+                                                              (match p14 with
+                                                               | XI p15 ->
+                                                                 (match p15 with
+                                                                  | XI p16 ->
+                                                                    (match p16 with
+                                                                    | XO p17 ->
+                                                                    (match p17 with
+                                                                    | XO p18 ->
+                                                                    (match p18 with
+                                                                    | XI p19 ->
+                                                                    (match p19 with
+                                                                    | XH ->
+                                                                    (match l1 with
+                                                                    | [] ->
+                                                                    true
+                                                                    | _ :: _ ->
+                                                                    false)
+                                                                    | _ ->
+                                                                    false)
+                                                                    | _ ->
+                                                                    false)
+                                                                    | _ ->
+                                                                    false)
+                                                                    | _ ->
+                                                                    false)
+                                                                  | _ -> false)
+                                                               | _ -> false)
+                                                            | _ -> false)
+                                                         | _ -> false))
+                                                   | _ -> false)
+                                                | _ -> false)
+                                             | _ -> false)
+                                          | _ -> false)
+                                       | _ -> false)
+                                    | _ -> false)
+                                 | _ -> false)
+                              | _ -> false))
+                        | _ -> false)
+                     | _ -> false)
+                  | _ -> false)
+               | _ -> false)
+            | _ -> false)
+         | _ -> false)
+      | _ -> false)
+   | _ -> false)
 
-(** val savepoint : pcfg -> pstate -> z -> bool -> pstate * effect list **)
+(** val atoi : z list -> z **)
 
-let savepoint c s ts sync =
-  let (s1, e1) = write_wl c s (enc_rec (RSavepoint ts)) [] in
-  let (s2, e2) = flush_wl c s1 sync in (s2, (app e1 e2))
+let atoi s =
+  let s0 = skip_ws s in
+  (match s0 with
+   | [] ->
+     let sign = Zpos XH in
+     if is_inf s0
+     then sw (Zpos (XO (XO (XO (XO (XO (XO XH)))))))
+            (Z.mul
+              (Z.sub
+                (Z.pow (Zpos (XO XH)) (Zpos (XI (XI (XI (XI (XI XH)))))))
+                (Zpos XH)) sign)
+     else sw (Zpos (XO (XO (XO (XO (XO (XO XH)))))))
+            (Z.mul (atoi_digits s0 Z0) sign)
+   | z0 :: r ->
+     (match z0 with
+      | Zpos p ->
+        (match p with
+         | XI p0 ->
+           (match p0 with
+            | XI p1 ->
+              (match p1 with
+               | XO p2 ->
+                 (match p2 with
+                  | XI p3 ->
+                    (match p3 with
+                     | XO p4 ->
+                       (match p4 with
+                        | XH ->
+                          let sign = Zpos XH in
+                          if is_inf r
+                          then sw (Zpos (XO (XO (XO (XO (XO (XO XH)))))))
+                                 (Z.mul
+                                   (Z.sub
+                                     (Z.pow (Zpos (XO XH)) (Zpos (XI (XI (XI
+                                       (XI (XI XH))))))) (Zpos XH)) sign)
+                          else sw (Zpos (XO (XO (XO (XO (XO (XO XH)))))))
+                                 (Z.mul (atoi_digits r Z0) sign)
+                        | _ ->
+                          let sign = Zpos XH in
+                          if is_inf s0
+                          then sw (Zpos (XO (XO (XO (XO (XO (XO XH)))))))
+                                 (Z.mul
+                                   (Z.sub
+                                     (Z.pow (Zpos (XO XH)) (Zpos (XI (XI (XI
+                                       (XI (XI XH))))))) (Zpos XH)) sign)
+                          else sw (Zpos (XO (XO (XO (XO (XO (XO XH)))))))
+                                 (Z.mul (atoi_digits s0 Z0) sign))
+                     | _ ->
+                       let sign = Zpos XH in
+                       if is_inf s0
+                       then sw (Zpos (XO (XO (XO (XO (XO (XO XH)))))))
+                              (Z.mul
+                                (Z.sub
+                                  (Z.pow (Zpos (XO XH)) (Zpos (XI (XI (XI (XI
+                                    (XI XH))))))) (Zpos XH)) sign)
+                       else sw (Zpos (XO (XO (XO (XO (XO (XO XH)))))))
+                              (Z.mul (atoi_digits s0 Z0) sign))
+                  | _ ->
+                    let sign = Zpos XH in
+                    if is_inf s0
+                    then sw (Zpos (XO (XO (XO (XO (XO (XO XH)))))))
+                           (Z.mul
+                             (Z.sub
+                               (Z.pow (Zpos (XO XH)) (Zpos (XI (XI (XI (XI
+                                 (XI XH))))))) (Zpos XH)) sign)
+                    else sw (Zpos (XO (XO (XO (XO (XO (XO XH)))))))
+                           (Z.mul (atoi_digits s0 Z0) sign))
+               | _ ->
+                 let sign = Zpos XH in
+                 if is_inf s0
+                 then sw (Zpos (XO (XO (XO (XO (XO (XO XH)))))))
+                        (Z.mul
+                          (Z.sub
+                            (Z.pow (Zpos (XO XH)) (Zpos (XI (XI (XI (XI (XI
+                              XH))))))) (Zpos XH)) sign)
+                 else sw (Zpos (XO (XO (XO (XO (XO (XO XH)))))))
+                        (Z.mul (atoi_digits s0 Z0) sign))
+            | XO p1 ->
+              (match p1 with
+               | XI p2 ->
+                 (match p2 with
+                  | XI p3 ->
+                    (match p3 with
+                     | XO p4 ->
+                       (match p4 with
+                        | XH ->
+                          let sign = Zneg XH in
+                          if is_inf r
+                          then sw (Zpos (XO (XO (XO (XO (XO (XO XH)))))))
+                                 (Z.mul
+                                   (Z.sub
+                                     (Z.pow (Zpos (XO XH)) (Zpos (XI (XI (XI
+                                       (XI (XI XH))))))) (Zpos XH)) sign)
+                          else sw (Zpos (XO (XO (XO (XO (XO (XO XH)))))))
+                                 (Z.mul (atoi_digits r Z0) sign)
+                        | _ ->
+                          let sign = Zpos XH in
+                          if is_inf s0
+                          then sw (Zpos (XO (XO (XO (XO (XO (XO XH)))))))
+                                 (Z.mul
+                                   (Z.sub
+                                     (Z.pow (Zpos (XO XH)) (Zpos (XI (XI (XI
+                                       (XI (XI XH))))))) (Zpos XH)) sign)
+                          else sw (Zpos (XO (XO (XO (XO (XO (XO XH)))))))
+                                 (Z.mul (atoi_digits s0 Z0) sign))
+                     | _ ->
+                       let sign = Zpos XH in
+                       if is_inf s0
+                       then sw (Zpos (XO (XO (XO (XO (XO (XO XH)))))))
+                              (Z.mul
+                                (Z.sub
+                                  (Z.pow (Zpos (XO XH)) (Zpos (XI (XI (XI (XI
+                                    (XI XH))))))) (Zpos XH)) sign)
+                       else sw (Zpos (XO (XO (XO (XO (XO (XO XH)))))))
+                              (Z.mul (atoi_digits s0 Z0) sign))
+                  | _ ->
+                    let sign = Zpos XH in
+                    if is_inf s0
+                    then sw (Zpos (XO (XO (XO (XO (XO (XO XH)))))))
+                           (Z.mul
+                             (Z.sub
+                               (Z.pow (Zpos (XO XH)) (Zpos (XI (XI (XI (XI
+                                 (XI XH))))))) (Zpos XH)) sign)
+                    else sw (Zpos (XO (XO (XO (XO (XO (XO XH)))))))
+                           (Z.mul (atoi_digits s0 Z0) sign))
+               | _ ->
+                 let sign = Zpos XH in
+                 if is_inf s0
+                 then sw (Zpos (XO (XO (XO (XO (XO (XO XH)))))))
+                        (Z.mul
+                          (Z.sub
+                            (Z.pow (Zpos (XO XH)) (Zpos (XI (XI (XI (XI (XI
+                              XH))))))) (Zpos XH)) sign)
+                 else sw (Zpos (XO (XO (XO (XO (XO (XO XH)))))))
+                        (Z.mul (atoi_digits s0 Z0) sign))
+            | XH ->
+              let sign = Zpos XH in
+              if is_inf s0
+              then sw (Zpos (XO (XO (XO (XO (XO (XO XH)))))))
+                     (Z.mul
+                       (Z.sub
+                         (Z.pow (Zpos (XO XH)) (Zpos (XI (XI (XI (XI (XI
+                           XH))))))) (Zpos XH)) sign)
+              else sw (Zpos (XO (XO (XO (XO (XO (XO XH)))))))
+                     (Z.mul (atoi_digits s0 Z0) sign))
+         | _ ->
+           let sign = Zpos XH in
+           if is_inf s0
+           then sw (Zpos (XO (XO (XO (XO (XO (XO XH)))))))
+                  (Z.mul
+                    (Z.sub
+                      (Z.pow (Zpos (XO XH)) (Zpos (XI (XI (XI (XI (XI
+                        XH))))))) (Zpos XH)) sign)
+           else sw (Zpos (XO (XO (XO (XO (XO (XO XH)))))))
+                  (Z.mul (atoi_digits s0 Z0) sign))
+      | _ ->
+        let sign = Zpos XH in
+        if is_inf s0
+        then sw (Zpos (XO (XO (XO (XO (XO (XO XH)))))))
+               (Z.mul
+                 (Z.sub
+                   (Z.pow (Zpos (XO XH)) (Zpos (XI (XI (XI (XI (XI XH)))))))
+                   (Zpos XH)) sign)
+        else sw (Zpos (XO (XO (XO (XO (XO (XO XH)))))))
+               (Z.mul (atoi_digits s0 Z0) sign)))
 
-type event =
-| VWrite of z * bytes
-| VSet of z * z * z
-| VCopy of z * z * z
-| VResize of z * z
-| VSynced
-| VSavepoint of z * bool
-| VCheckpoint of z
+(** val hexdigit : z -> z **)
 
-(** val write_hdr : z -> z -> z -> bytes **)
+let hexdigit c =
+  uw (Zpos (XO (XO (XO XH))))
+    (Z.add (Z.add (Zpos (XI (XI (XI (XO (XI (XO XH))))))) c)
+      (Z.coq_land
+        (Z.shiftr
+          (uw (Zpos (XO (XO (XO (XO (XO XH))))))
+            (Z.sub c (Zpos (XO (XI (XO XH)))))) (Zpos (XO (XO (XO XH)))))
+        (uw (Zpos (XO (XO (XO (XO (XO XH))))))
+          (Z.lnot (Zpos (XO (XI (XI (XO (XO XH))))))))))
 
-let write_hdr crc off len =
-  app (hdr wOP_WRITE)
-    (app (le_enc (S (S (S (S O)))) crc)
-      (app (le_enc (S (S (S (S O)))) len)
-        (le_enc (S (S (S (S (S (S (S (S O)))))))) off)))
+(** val bin2hex : z list -> z list **)
 
-(** val step : pcfg -> pstate -> event -> pstate * effect list **)
+let rec bin2hex = function
+| [] -> []
+| b :: r ->
+  (hexdigit (Z.shiftr b (Zpos (XO (XO XH))))) :: ((hexdigit
+                                                    (Z.coq_land b (Zpos (XI
+                                                      (XI (XI XH)))))) :: 
+    (bin2hex r))
 
-let step c s = function
-| VWrite (off, data) ->
-  write_wl c s
-    (write_hdr (if c.c_ccrc then crc32 data Z0 else Z0) off (lenZ data)) data
-| VSet (off, val0, len) -> write_wl c s (enc_rec (RSet (val0, off, len))) []
-| VCopy (off, len, noff) -> write_wl c s (enc_rec (RCopy (off, len, noff))) []
-| VResize (osize, nsize) ->
-  let (s1, e1) = write_wl c s (enc_rec (RResize (osize, nsize))) [] in
-  let (s2, e2) = checkpoint c s1 true Z0 in (s2, (app e1 e2))
-| VSynced -> flush_wl c s true
-| VSavepoint (ts, sync) -> savepoint c s ts sync
-| VCheckpoint ts -> checkpoint c s false ts
+(** val a2h : z -> z **)
 
-(** val run : pcfg -> pstate -> event list -> pstate * effect list **)
+let a2h c =
+  nth (Z.to_nat c) ascii2hex_tbl Z0
 
-let rec run c s = function
-| [] -> (s, [])
-| ev :: t ->
-  let (s1, e1) = step c s ev in let (s2, e2) = run c s1 t in (s2, (app e1 e2))
+(** val hex2bin_even : z list -> z list **)
 
-(** val apply_effect : (bytes * bytes) -> effect -> bytes * bytes **)
+let rec hex2bin_even = function
+| [] -> []
+| a :: l ->
+  (match l with
+   | [] -> []
+   | b :: r ->
+     (uw (Zpos (XO (XO (XO XH))))
+       (Z.coq_lor
+         (uw (Zpos (XO (XO (XO XH)))) (Z.shiftl (a2h a) (Zpos (XO (XO XH)))))
+         (a2h b))) :: (hex2bin_even r))
 
-let apply_effect ld e =
-  let (log, disk) = ld in
-  (match e with
-   | ELogAppend bs -> ((app log bs), disk)
-   | ELogTruncate -> ([], disk)
-   | EMainStore op ->
-     (log, (match apply_op disk op with
-            | Some m -> m
-            | None -> disk))
-   | EMainResize n0 -> (log, (resize_nat (Z.to_nat n0) disk))
-   | _ -> (log, disk))
+(** val hex2bin : z list -> z list **)
 
-(** val after_effects : bytes -> bytes -> effect list -> bytes * bytes **)
+let hex2bin hex =
+  if Z.odd (Z.of_nat (length hex))
+  then hex2bin_even ((Zpos (XO (XO (XO (XO (XI XH)))))) :: hex)
+  else hex2bin_even hex
 
-let after_effects log disk es =
-  fold_left apply_effect es (log, disk)
+type kmode = { km_vnum : bool; km_real : bool; km_compound : bool }
 
-(** val recovery_effects : bool -> bytes -> bytes -> effect list **)
+(** val cmp2 : z list -> z list -> z **)
 
-let recovery_effects ccrc log disk =
-  if Z.eqb (lenZ log) Z0
-  then []
-  else let (v, ops) = replay_ops ccrc (Zpos XH) Z0 log in
-       app (replay_effects (lenZ disk) ops)
-         (match v with
-          | VOk -> EMsync :: (ELogTruncate :: (ELogFsync :: []))
-          | _ -> [])
+let rec cmp2 a b =
+  match a with
+  | [] -> Z0
+  | x :: a' ->
+    (match b with
+     | [] -> Z0
+     | y :: b' -> if Z.eqb x y then cmp2 a' b' else Z.sub x y)
 
-(** val effect_sig : effect -> ((z * z) * z) * z **)
+(** val sgn3 : z -> z -> z **)
 
-let effect_sig = function
-| ELogAppend bs -> ((((Zpos XH), (Zpos XH)), (Zneg XH)), (lenZ bs))
-| ELogFsync -> ((((Zpos (XI (XO XH))), (Zpos XH)), Z0), Z0)
-| ELogTruncate -> ((((Zpos (XI XH)), (Zpos XH)), Z0), Z0)
-| EMainStore op ->
-  let (p, l) = aop_sig op in
-  let (k, o) = p in ((((Zpos (XO (XO (XO XH)))), k), o), l)
-| EMainResize n0 -> ((((Zpos (XO (XO XH))), (Zpos (XO XH))), n0), Z0)
-| EMsync -> ((((Zpos (XI (XI XH))), (Zpos (XO XH))), Z0), Z0)
+let sgn3 n1 n2 =
+  if Z.gtb n1 n2 then Zneg XH else if Z.ltb n1 n2 then Zpos XH else Z0
 
-(** val lenB : bytes -> z **)
+(** val read_vnum2 : z list -> z **)
 
-let lenB l =
-  Z.of_nat (length l)
+let read_vnum2 b =
+  match read_vnum b with
+  | Some p -> let (n0, _) = p in n0
+  | None -> Z0
 
-(** val mk_image : bytes -> bytes -> bytes **)
+(** val strncmp : nat -> z list -> z list -> z **)
 
-let mk_image main wal =
-  app main
-    (app wal
-      (app (le_enc (S (S (S (S (S (S (S (S O)))))))) (lenB main))
-        (le_enc (S (S (S (S O)))) iWKV_BACKUP_MAGIC)))
+let rec strncmp n0 a b =
+  match n0 with
+  | O -> Z0
+  | S k ->
+    let x = hd Z0 a in
+    let y = hd Z0 b in
+    if Z.eqb x y
+    then if Z.eqb x Z0 then Z0 else strncmp k (tl a) (tl b)
+    else Z.sub x y
 
-(** val split_image : bytes -> (bytes * bytes) option **)
+(** val memcmp : nat -> z list -> z list -> z **)
 
-let split_image img =
-  let fsz = lenB img in
-  if Z.ltb fsz wAL_PAGE_SIZE
-  then None
-  else if negb (Z.eqb (rd (S (S (S (S O)))) Z0 img) wAL_IWFSM_MAGICK)
-       then None
-       else if negb
-                 (Z.eqb
-                   (rd (S (S (S (S O)))) iWFSM_CUSTOM_HDR_DATA_OFFSET img)
-                   iWKV_MAGIC)
-            then None
-            else if negb
-                      (Z.eqb
-                        (rd (S (S (S (S O)))) (Z.sub fsz (Zpos (XO (XO XH))))
-                          img) iWKV_BACKUP_MAGIC)
-                 then None
-                 else let pos = Z.sub fsz (Zpos (XO (XO (XI XH)))) in
-                      let waloff =
-                        rd (S (S (S (S (S (S (S (S O)))))))) pos img
-                      in
-                      if (||)
-                           ((&&) (negb (Z.eqb waloff pos))
-                             (Z.gtb waloff (Z.sub pos sizeof_WBSEP)))
-                           (negb
-                             (Z.eqb
-                               (Z.coq_land waloff
-                                 (Z.sub wAL_PAGE_SIZE (Zpos XH))) Z0))
-                      then None
-                      else if (&&) (negb (Z.eqb waloff pos))
-                                (negb
-                                  (Z.eqb (nth (Z.to_nat waloff) img Z0)
-                                    wOP_SEP))
-                           then None
-                           else Some ((firstn (Z.to_nat waloff) img),
-                                  (firstn (Z.to_nat (Z.sub pos waloff))
-                                    (skipn (Z.to_nat waloff) img)))
+let memcmp n0 a b =
+  cmp2 (firstn n0 a) (firstn n0 b)
 
-(** val open_image : bool -> bytes -> (verdict * bytes) * aop list **)
+(** val af_skip : z list -> z list **)
 
-let open_image ccrc img =
-  match split_image img with
-  | Some p -> let (main, wal) = p in recover ccrc (Zpos (XO XH)) Z0 wal main
-  | None -> ((VOk, img), [])
+let rec af_skip s = match s with
+| [] -> []
+| c :: r ->
+  if (||) (Z.leb c (Zpos (XO (XO (XO (XO (XO XH)))))))
+       (Z.eqb c (Zpos (XI (XI (XI (XI (XI (XI XH))))))))
+  then af_skip r
+  else s
+
+(** val af_int : z list -> z -> z * z list **)
+
+let rec af_int s acc =
+  match s with
+  | [] -> (acc, [])
+  | c :: r ->
+    if (||) (Z.ltb c (Zpos (XO (XO (XO (XO (XI XH)))))))
+         (Z.gtb c (Zpos (XI (XO (XO (XI (XI XH)))))))
+    then (acc, s)
+    else af_int r
+           (sw (Zpos (XO (XO (XO (XO (XO (XO XH)))))))
+             (Z.sub (Z.add (Z.mul acc (Zpos (XO (XI (XO XH))))) c) (Zpos (XO
+               (XO (XO (XO (XI XH))))))))
+
+(** val af_frac : z list -> nat -> z -> z -> z * z **)
+
+let rec af_frac s lim num k =
+  match lim with
+  | O -> (num, k)
+  | S l ->
+    (match s with
+     | [] -> (num, k)
+     | c :: r ->
+       if (||) (Z.ltb c (Zpos (XO (XO (XO (XO (XI XH)))))))
+            (Z.gtb c (Zpos (XI (XO (XO (XI (XI XH)))))))
+       then (num, k)
+       else af_frac r l
+              (Z.add (Z.mul num (Zpos (XO (XI (XO XH)))))
+                (Z.sub c (Zpos (XO (XO (XO (XO (XI XH))))))))
+              (Z.add k (Zpos XH)))
+
+(** val af_part : z list -> (z * z) * z list **)
+
+let af_part s =
+  let s0 = af_skip s in
+  (match s0 with
+   | [] ->
+     let sign = Zpos XH in
+     let (n0, rest) = af_int s0 Z0 in
+     ((sign, (sw (Zpos (XO (XO (XO (XO (XO (XO XH))))))) (Z.mul n0 sign))),
+     rest)
+   | z0 :: r ->
+     (match z0 with
+      | Zpos p ->
+        (match p with
+         | XI p0 ->
+           (match p0 with
+            | XO p1 ->
+              (match p1 with
+               | XI p2 ->
+                 (match p2 with
+                  | XI p3 ->
+                    (match p3 with
+                     | XO p4 ->
+                       (match p4 with
+                        | XH ->
+                          let sign = Zneg XH in
+                          let (n0, rest) = af_int r Z0 in
+                          ((sign,
+                          (sw (Zpos (XO (XO (XO (XO (XO (XO XH)))))))
+                            (Z.mul n0 sign))), rest)
+                        | _ ->
+                          let sign = Zpos XH in
+                          let (n0, rest) = af_int s0 Z0 in
+                          ((sign,
+                          (sw (Zpos (XO (XO (XO (XO (XO (XO XH)))))))
+                            (Z.mul n0 sign))), rest))
+                     | _ ->
+                       let sign = Zpos XH in
+                       let (n0, rest) = af_int s0 Z0 in
+                       ((sign,
+                       (sw (Zpos (XO (XO (XO (XO (XO (XO XH)))))))
+                         (Z.mul n0 sign))), rest))
+                  | _ ->
+                    let sign = Zpos XH in
+                    let (n0, rest) = af_int s0 Z0 in
+                    ((sign,
+                    (sw (Zpos (XO (XO (XO (XO (XO (XO XH)))))))
+                      (Z.mul n0 sign))), rest))
+               | _ ->
+                 let sign = Zpos XH in
+                 let (n0, rest) = af_int s0 Z0 in
+                 ((sign,
+                 (sw (Zpos (XO (XO (XO (XO (XO (XO XH))))))) (Z.mul n0 sign))),
+                 rest))
+            | _ ->
+              let sign = Zpos XH in
+              let (n0, rest) = af_int s0 Z0 in
+              ((sign,
+              (sw (Zpos (XO (XO (XO (XO (XO (XO XH))))))) (Z.mul n0 sign))),
+              rest))
+         | _ ->
+           let sign = Zpos XH in
+           let (n0, rest) = af_int s0 Z0 in
+           ((sign,
+           (sw (Zpos (XO (XO (XO (XO (XO (XO XH))))))) (Z.mul n0 sign))),
+           rest))
+      | _ ->
+        let sign = Zpos XH in
+        let (n0, rest) = af_int s0 Z0 in
+        ((sign,
+        (sw (Zpos (XO (XO (XO (XO (XO (XO XH))))))) (Z.mul n0 sign))), rest)))
+
+(** val af_hasfrac : z list -> bool **)
+
+let af_hasfrac = function
+| [] -> false
+| z0 :: l ->
+  (match z0 with
+   | Zpos p ->
+     (match p with
+      | XO p0 ->
+        (match p0 with
+         | XI p1 ->
+           (match p1 with
+            | XI p2 ->
+              (match p2 with
+               | XI p3 ->
+                 (match p3 with
+                  | XO p4 ->
+                    (match p4 with
+                     | XH -> (match l with
+                              | [] -> false
+                              | _ :: _ -> true)
+                     | _ -> false)
+                  | _ -> false)
+               | _ -> false)
+            | _ -> false)
+         | _ -> false)
+      | _ -> false)
+   | _ -> false)
+
+(** val af_fracval : z -> z list -> z * z **)
+
+let af_fracval sign rest =
+  if af_hasfrac rest
+  then let (n0, k) = af_frac (tl rest) (Z.to_nat iWNUMBUF_SIZE) Z0 Z0 in
+       ((Z.mul n0 sign), k)
+  else (Z0, Z0)
+
+(** val afcmp : (nat -> z list -> z list -> z) -> z list -> z list -> z **)
+
+let afcmp tie a b =
+  let (p, arest) = af_part a in
+  let (asign, anum) = p in
+  let (p0, brest) = af_part b in
+  let (bsign, bnum) = p0 in
+  if Z.ltb anum bnum
+  then Zneg XH
+  else if Z.gtb anum bnum
+       then Zpos XH
+       else let (an, ak) = af_fracval asign arest in
+            let (bn, bk) = af_fracval bsign brest in
+            let l = Z.mul an (Z.pow (Zpos (XO (XI (XO XH)))) bk) in
+            let r = Z.mul bn (Z.pow (Zpos (XO (XI (XO XH)))) ak) in
+            if (&&) ((||) (af_hasfrac arest) (af_hasfrac brest)) (Z.ltb l r)
+            then Zneg XH
+            else if (&&) ((||) (af_hasfrac arest) (af_hasfrac brest))
+                      (Z.gtb l r)
+                 then Zpos XH
+                 else let rv = tie (Nat.min (length a) (length b)) a b in
+                      if Z.eqb rv Z0
+                      then Z.sub (Z.of_nat (length a)) (Z.of_nat (length b))
+                      else rv
+
+(** val vnum_cmp : z list -> z list -> z **)
+
+let vnum_cmp v1 v2 =
+  let l1 = Z.of_nat (length v1) in
+  let l2 = Z.of_nat (length v2) in
+  if (||) ((||) (negb (Z.eqb l2 l1)) (Z.gtb l2 iW_VNUMBUFSZ))
+       (Z.gtb l1 iW_VNUMBUFSZ)
+  then Z.sub l2 l1
+  else sgn3 (read_vnum2 v1) (read_vnum2 v2)
+
+(** val cmp_keys_prefix :
+    (nat -> z list -> z list -> z) -> kmode -> z list -> z list -> z -> z **)
+
+let cmp_keys_prefix tie m v1 kdata kcomp =
+  if m.km_compound
+  then (match read_vnum v1 with
+        | Some p ->
+          let (c1, step) = p in
+          let u1 = skipn step v1 in
+          let v1len = Z.sub (Z.of_nat (length v1)) (Z.of_nat step) in
+          let v2len = Z.of_nat (length kdata) in
+          if Z.ltb v1len (Zpos XH)
+          then Z.sub v2len v1len
+          else if m.km_vnum
+               then let r = vnum_cmp u1 kdata in
+                    if (||)
+                         ((||) (negb (Z.eqb v2len v1len))
+                           (Z.gtb v2len iW_VNUMBUFSZ))
+                         (Z.gtb v1len iW_VNUMBUFSZ)
+                    then r
+                    else if Z.eqb r Z0 then sgn3 c1 kcomp else r
+               else if m.km_real
+                    then let r = afcmp tie kdata u1 in
+                         if Z.eqb r Z0 then sgn3 c1 kcomp else r
+                    else cmp2 kdata u1
+        | None -> Z0)
+  else if m.km_vnum
+       then vnum_cmp v1 kdata
+       else if m.km_real then afcmp tie kdata v1 else cmp2 kdata v1
+
+(** val cmp_keys :
+    (nat -> z list -> z list -> z) -> kmode -> z list -> z list -> z -> z **)
+
+let cmp_keys tie m v1 kdata kcomp =
+  let rv = cmp_keys_prefix tie m v1 kdata kcomp in
+  if (&&) (Z.eqb rv Z0) (negb ((||) m.km_vnum m.km_real))
+  then if m.km_compound
+       then (match read_vnum v1 with
+             | Some p ->
+               let (c1, step) = p in
+               let v1len = Z.sub (Z.of_nat (length v1)) (Z.of_nat step) in
+               if Z.eqb (Z.of_nat (length kdata)) v1len
+               then sgn3 c1 kcomp
+               else Z.sub (Z.of_nat (length kdata)) v1len
+             | None -> Z0)
+       else Z.sub (Z.of_nat (length kdata)) (Z.of_nat (length v1))
+  else rv
+
+(** val stored : kmode -> z list -> z -> z list **)
+
+let stored m kdata kcomp =
+  if m.km_compound then app (set_vnum64 kcomp) kdata else kdata
+
+(** val kcmp :
+    (nat -> z list -> z list -> z) -> kmode -> (z list * z) -> (z list * z)
+    -> z **)
+
+let kcmp tie m a b =
+  cmp_keys tie m (stored m (fst a) (snd a)) (fst b) (snd b)
+
+(** val sblk_cmp_key :
+    (nat -> z list -> z list -> z) -> kmode -> z list -> bool -> z list -> z
+    -> z option **)
+
+let sblk_cmp_key tie m lk full kdata kcomp =
+  let ksize =
+    Z.add (Z.of_nat (length kdata))
+      (if m.km_compound then iW_VNUMSIZE kcomp else Z0)
+  in
+  if (||)
+       ((||)
+         ((||) full
+           ((&&) (negb m.km_compound) (Z.ltb ksize (Z.of_nat (length lk)))))
+         m.km_vnum) m.km_real
+  then Some (cmp_keys tie m lk kdata kcomp)
+  else let r = cmp_keys_prefix tie m lk kdata kcomp in
+       if Z.eqb r Z0 then None else Some r
+
+(** val sblk_cmp_key_full :
+    (nat -> z list -> z list -> z) -> kmode -> z list -> z list -> z -> z **)
+
+let sblk_cmp_key_full tie m skey kdata kcomp =
+  let lk = firstn (Z.to_nat pREFIX_KEY_LEN_V2) skey in
+  let full = Z.leb (Z.of_nat (length skey)) pREFIX_KEY_LEN_V2 in
+  (match sblk_cmp_key tie m lk full kdata kcomp with
+   | Some r -> r
+   | None -> cmp_keys tie m skey kdata kcomp)
